@@ -414,7 +414,7 @@ Proof.
   induction k as [|c k IH]; intros s prev key v Hp Hk; [reflexivity|].
   cbn [forallb] in Hk. apply andb_prop in Hk as [Hc Hk]. destruct (plain_val_split c Hc) as (E1 & E3 & E4).
   cbn [app pa_loop pa_push]. rewrite Hp, E1, E3.
-  destruct (c =? cCOLON); rewrite (IH s c key (c :: v) E4 Hk); rewrite last_cons; cbn [rev];
+  destruct (c =? cCOLON); (etransitivity; [exact (IH s c key (c :: v) E4 Hk)|]); rewrite last_cons; cbn [rev];
     now rewrite <- app_assoc.
 Qed.
 
@@ -426,9 +426,9 @@ Proof.
     cbn [app pa_loop pa_push]. rewrite H. change (cSQ =? cSQ) with true. reflexivity.
   - cbn [wf_qvalue] in H. apply andb_prop in H as [Hc H].
     cbn [app pa_loop pa_push]. destruct (p =? cBS) eqn:Ep.
-    + rewrite (IH s c key (c :: v) H). cbn [rev]. now rewrite <- app_assoc.
+    + etransitivity; [exact (IH s c key (c :: v) H)|]. cbn [rev]. now rewrite <- app_assoc.
     + destruct (c =? cSQ) eqn:Ec; [discriminate|].
-      rewrite (IH s c key (c :: v) H). cbn [rev]. now rewrite <- app_assoc.
+      etransitivity; [exact (IH s c key (c :: v) H)|]. cbn [rev]. now rewrite <- app_assoc.
 Qed.
 
 Lemma wf_uvalue_scan_last val : forall p, wf_uvalue_scan val p = true -> (last val p =? cBS) = false.
@@ -445,10 +445,14 @@ Proof.
   cbn [wf_uvalue_scan] in H. apply andb_prop in H as [Hc H].
   cbn [app pa_loop pa_push]. rewrite last_cons.
   destruct (p =? cBS) eqn:Ep.
-  - rewrite (IH s c key (c :: v) H). cbn [rev]. now rewrite <- app_assoc.
+  - etransitivity; [exact (IH s c key (c :: v) H)|]. cbn [rev]. now rewrite <- app_assoc.
   - destruct (c =? cSQ) eqn:E1; [discriminate|]. destruct (c =? cCOMMA) eqn:E2; [discriminate|].
-    destruct (c =? cCOLON); rewrite (IH s c key (c :: v) H); cbn [rev]; now rewrite <- app_assoc.
+    destruct (c =? cCOLON); (etransitivity; [exact (IH s c key (c :: v) H)|]); cbn [rev]; now rewrite <- app_assoc.
 Qed.
+
+Lemma wf_uvalue_scan_prev s p q : (p =? cBS) = false -> (q =? cBS) = false ->
+  wf_uvalue_scan s p = wf_uvalue_scan s q.
+Proof. intros Hp Hq. destruct s as [|c r]; cbn [wf_uvalue_scan]; now rewrite Hp, Hq. Qed.
 
 (* the raw slices parseActions cuts out of a rendered action *)
 Definition raw_key (v : avar) (a : action) : bytes := av_pad v ++ vary_case (av_mask v) (a_name a).
@@ -504,10 +508,1389 @@ Proof.
     rewrite (pa_loop_inq vv s cSQ key _ Hq).
     f_equal. f_equal. rewrite rev_app_distr. cbn [rev app]. rewrite rev_app_distr. cbn [rev app].
     rewrite app_nil_r. rewrite <- !app_assoc. reflexivity.
-  - cbn [orb] in Hqu. unfold wf_uvalue in Hqu. rewrite EV in Hqu. fold vv in Hqu.
+  - cbn [orb] in Hqu. unfold wf_uvalue in Hqu.
     apply andb_prop in Hqu as [Hqu _]. apply andb_prop in Hqu as [Hsc _].
+    rewrite (wf_uvalue_scan_prev vv cCOLON (last (av_pad v) cCOLON) eq_refl Hlp) in Hsc.
     exists (last vv (last (av_pad v) cCOLON)). split.
-    + (* the scan guard is stated from a colon; the pad only inserts blanks *)
-      admit.
-    + admit.
-Admitted.
+    + now apply wf_uvalue_scan_last.
+    + etransitivity; [exact (pa_loop_uval vv s _ key _ Hsc)|].
+      f_equal. f_equal. rewrite rev_app_distr. rewrite app_nil_r. reflexivity.
+Qed.
+
+Definition lower_ (c : N) : bool := (97 <=? c) && (c <=? 122).
+Definition letter_ (c : N) : bool := lower_ c || ((65 <=? c) && (c <=? 90)).
+
+Lemma action_names_ok :
+  forallb (fun e => forallb lower_ (fst e) && negb (match fst e with [] => true | _ => false end)) action_table = true.
+Proof. vm_compute. reflexivity. Qed.
+
+Lemma action_name_ok name ty : p_assoc name action_table = Some ty -> forallb lower_ name = true /\ name <> [].
+Proof.
+  intros H. apply p_assoc_In in H.
+  pose proof (proj1 (forallb_forall _ action_table) action_names_ok (name, ty) H) as Hk.
+  cbn [fst] in Hk. apply andb_prop in Hk as [H1 H2]. split; [exact H1|].
+  destruct name; [discriminate|congruence].
+Qed.
+
+Lemma flip_case_letter c : letter_ c = true -> letter_ (flip_case c) = true.
+Proof.
+  unfold letter_, lower_, flip_case. intros H.
+  destruct ((65 <=? c) && (c <=? 90)) eqn:EU.
+  - apply andb_prop in EU as [U1 U2]. apply N.leb_le in U1, U2.
+    apply orb_true_intro. left. apply andb_true_intro. split; apply N.leb_le; lia.
+  - rewrite orb_false_r in H. rewrite H. apply andb_prop in H as [L1 L2]. apply N.leb_le in L1, L2.
+    apply orb_true_intro. right. apply andb_true_intro. split; apply N.leb_le; lia.
+Qed.
+
+Lemma vary_case_letters mask : forall s, forallb letter_ s = true -> forallb letter_ (vary_case mask s) = true.
+Proof.
+  induction mask as [|b m IH]; intros s H; destruct s as [|c s]; try exact H; try reflexivity.
+  cbn [forallb] in H. apply andb_prop in H as [Hc Hs]. cbn [vary_case forallb].
+  rewrite (IH s Hs), andb_true_r. destruct b; [now apply flip_case_letter|exact Hc].
+Qed.
+
+Lemma vary_case_nil mask s : vary_case mask s = [] -> s = [].
+Proof. destruct s; [reflexivity|]. destruct mask; discriminate. Qed.
+
+Lemma ascii_lower_flip c : ascii_lower (flip_case c) = ascii_lower c.
+Proof.
+  unfold ascii_lower, flip_case.
+  destruct ((65 <=? c) && (c <=? 90)) eqn:EU.
+  - apply andb_prop in EU as [U1 U2]. apply N.leb_le in U1, U2.
+    assert (E : (65 <=? c + 32) && (c + 32 <=? 90) = false).
+    { apply andb_false_intro2. apply N.leb_gt. lia. }
+    now rewrite E.
+  - destruct ((97 <=? c) && (c <=? 122)) eqn:EL.
+    + apply andb_prop in EL as [L1 L2]. apply N.leb_le in L1, L2.
+      assert (E : (65 <=? c - 32) && (c - 32 <=? 90) = true).
+      { apply andb_true_intro. split; apply N.leb_le; lia. }
+      rewrite E. lia.
+    + now rewrite EU.
+Qed.
+
+Lemma p_lower_vary mask : forall s, p_lower (vary_case mask s) = p_lower s.
+Proof.
+  induction mask as [|b m IH]; intros s; destruct s as [|c s]; try reflexivity.
+  cbn [vary_case]. unfold p_lower in *. cbn [map]. rewrite IH. destruct b; [now rewrite ascii_lower_flip|reflexivity].
+Qed.
+
+Lemma p_lower_lower s : forallb lower_ s = true -> p_lower s = s.
+Proof.
+  induction s as [|c s IH]; intros H; [reflexivity|].
+  cbn [forallb] in H. apply andb_prop in H as [Hc Hs]. unfold p_lower in *. cbn [map]. rewrite (IH Hs).
+  f_equal. unfold ascii_lower. unfold lower_ in Hc. apply andb_prop in Hc as [L1 L2]. apply N.leb_le in L1, L2.
+  assert (E : (65 <=? c) && (c <=? 90) = false) by (apply andb_false_intro2; apply N.leb_gt; lia).
+  now rewrite E.
+Qed.
+
+Lemma lower_letter s : forallb lower_ s = true -> forallb letter_ s = true.
+Proof.
+  intros H. apply forallb_forall. intros x Hx. unfold letter_.
+  now rewrite (proj1 (forallb_forall _ _) H x Hx).
+Qed.
+
+Lemma letter_plain c : letter_ c = true -> plain_key c = true /\ nsp c = true.
+Proof.
+  unfold letter_, lower_, plain_key, nsp, p_is_ascii_space. intros H.
+  assert (R : (65 <= c /\ c <= 90) \/ (97 <= c /\ c <= 122)).
+  { apply orb_prop in H as [H|H]; apply andb_prop in H as [A B]; apply N.leb_le in A, B; lia. }
+  unfold cSQ, cCOLON, cCOMMA, cBS. split.
+  - repeat (apply andb_true_intro; split); apply negb_true_iff; apply N.eqb_neq; lia.
+  - apply andb_true_intro; split; [apply N.ltb_lt; lia|].
+    apply negb_true_iff; repeat (apply orb_false_intro); apply N.eqb_neq; lia.
+Qed.
+
+Lemma letters_plain s : forallb letter_ s = true -> forallb plain_key s = true.
+Proof.
+  intros H. apply forallb_forall. intros x Hx.
+  exact (proj1 (letter_plain x (proj1 (forallb_forall _ _) H x Hx))).
+Qed.
+
+Lemma plain_key_not_bs c : plain_key c = true -> (c =? cBS) = false.
+Proof. intros H. now destruct (plain_key_split c H) as (_ & _ & _ & E). Qed.
+
+Lemma last_forallb (f : N -> bool) s d : forallb f s = true -> s <> [] -> f (last s d) = true.
+Proof.
+  intros H Hne. apply (proj1 (forallb_forall _ _) H).
+  destruct s as [|c s]; [congruence|]. clear.
+  revert c. induction s as [|x s IH]; intros c; [now left|]. right. apply IH.
+Qed.
+
+Lemma raw_key_facts v a ty : is_pad (av_pad v) = true -> p_assoc (a_name a) action_table = Some ty ->
+  forallb plain_key (raw_key v a) = true /\ raw_key v a <> [] /\
+  p_lower (p_trim_space (raw_key v a)) = a_name a.
+Proof.
+  intros Hpad Hn. destruct (action_name_ok _ _ Hn) as [Hlow Hne].
+  pose proof (vary_case_letters (av_mask v) _ (lower_letter _ Hlow)) as Hlet.
+  set (x := vary_case (av_mask v) (a_name a)) in *.
+  assert (Hx : x <> []) by (intro E; apply vary_case_nil in E; congruence).
+  unfold raw_key. fold x. split; [|split].
+  - rewrite forallb_app. rewrite (proj2 (is_pad_plain _ Hpad)). now rewrite (letters_plain _ Hlet).
+  - destruct (av_pad v); [exact Hx|discriminate].
+  - rewrite (p_trim_space_pad _ _ Hpad).
+    rewrite (p_trim_space_id x 0 Hx).
+    + unfold x. rewrite p_lower_vary. now apply p_lower_lower.
+    + destruct x as [|c x']; [congruence|]. cbn [hd]. cbn [forallb] in Hlet. apply andb_prop in Hlet as [Hc _].
+      exact (proj2 (letter_plain c Hc)).
+    + unfold p_last. exact (proj2 (letter_plain _ (last_forallb letter_ x 0 Hlet Hx))).
+Qed.
+
+Lemma wf_action_split a : wf_action a = true ->
+  exists ty, p_assoc (a_name a) action_table = Some ty /\ a_type a = ty /\
+             wf_qvalue (a_value a) cSQ = true /\ line_safe (a_value a) = true.
+Proof.
+  unfold wf_action. destruct (p_assoc (a_name a) action_table) as [ty|]; [|discriminate].
+  intros H. apply andb_prop in H as [H H3]. apply andb_prop in H as [H1 H2]. apply N.eqb_eq in H1.
+  exists ty. auto.
+Qed.
+
+Lemma pa_actions al : forall vs prev, al <> [] -> forallb wf_action al = true -> wf_avars vs al = true ->
+  (prev =? cBS) = false ->
+  pa_loop (render_actions vs al) prev false [] None = raws vs al.
+Proof.
+  induction al as [|a r IH]; intros vs prev Hne Hwf Hvs Hprev; [congruence|].
+  cbn [forallb] in Hwf. apply andb_prop in Hwf as [Ha Hr].
+  cbn [wf_avars] in Hvs. apply andb_prop in Hvs as [Hva Hvr].
+  destruct (wf_action_split a Ha) as (ty & Hn & Hty & Hq & _).
+  set (v := hd avar_plain vs) in *.
+  assert (Hpad : is_pad (av_pad v) = true) by (unfold wf_avar in Hva; now apply andb_prop in Hva as [? _]).
+  destruct (raw_key_facts v a ty Hpad Hn) as (Hpk & Hkne & _).
+  assert (Hlast : forall d, (last (raw_key v a) d =? cBS) = false).
+  { intros d. apply plain_key_not_bs. now apply last_forallb. }
+  cbn [raws]. fold v.
+  assert (Hstep : forall tail rest,
+            (tail = [] /\ rest = []) \/ (exists t, tail = cCOMMA :: t /\ rest = pa_loop t cCOMMA false [] None) ->
+            pa_loop (render_action v a ++ tail) prev false [] None = (raw_key v a, raw_val v a) :: rest).
+  { intros tail rest Htail. rewrite render_action_eq. rewrite <- app_assoc.
+    rewrite (pa_loop_key (raw_key v a) _ prev [] Hprev Hpk). rewrite app_nil_r.
+    destruct (a_value a) as [|v0 val] eqn:EV.
+    - assert (Erv : raw_val v a = []) by (unfold raw_val; now rewrite EV). rewrite Erv.
+      cbn [app]. destruct Htail as [[-> ->]|(t & -> & ->)].
+      + cbn [pa_loop]. unfold pa_emit. now rewrite rev_involutive.
+      + cbn [pa_loop pa_push]. rewrite Hlast. change (cCOMMA =? cSQ) with false. change (cCOMMA =? cCOLON) with false.
+        change (cCOMMA =? cCOMMA) with true. cbn match. unfold pa_emit. now rewrite rev_involutive.
+    - assert (Hvne : a_value a <> []) by (rewrite EV; discriminate).
+      assert (Hq' : wf_qvalue (a_value a) cSQ = true) by (rewrite EV; exact Hq).
+      cbn [app].
+      destruct (pa_value v a (rev (raw_key v a)) (last (raw_key v a) prev) tail Hva Hq' Hvne (Hlast prev))
+        as (p' & Hp' & Heq).
+      etransitivity; [exact Heq|].
+      destruct Htail as [[-> ->]|(t & -> & ->)].
+      + cbn [pa_loop]. unfold pa_emit. now rewrite !rev_involutive.
+      + cbn [pa_loop pa_push]. rewrite Hp'. change (cCOMMA =? cSQ) with false. change (cCOMMA =? cCOLON) with false.
+        change (cCOMMA =? cCOMMA) with true. cbn match. unfold pa_emit. now rewrite !rev_involutive. }
+  destruct r as [|a' r'].
+  - change (render_actions vs [a]) with (render_action v a). cbn [raws].
+    rewrite <- (app_nil_r (render_action v a)). apply Hstep. now left.
+  - change (render_actions vs (a :: a' :: r')) with (render_action v a ++ cCOMMA :: render_actions (tl vs) (a' :: r')).
+    rewrite (Hstep (cCOMMA :: render_actions (tl vs) (a' :: r')) (pa_loop (render_actions (tl vs) (a' :: r')) cCOMMA false [] None)).
+    + f_equal. apply IH; [discriminate|exact Hr|exact Hvr|reflexivity].
+    + right. eexists. split; reflexivity.
+Qed.
+
+Lemma pa_split_as_loop c r : plain_key c = true ->
+  pa_split (c :: r) = pa_loop (c :: r) cCOMMA false [] None.
+Proof.
+  intros H. destruct (plain_key_split c H) as (E1 & E2 & E3 & E4).
+  cbn [pa_split pa_loop pa_push]. change (cCOMMA =? cBS) with false. now rewrite E1, E2, E3.
+Qed.
+
+Lemma pa_split_render vs al : al <> [] -> forallb wf_action al = true -> wf_avars vs al = true ->
+  pa_split (render_actions vs al) = raws vs al.
+Proof.
+  intros Hne Hwf Hvs.
+  rewrite <- (pa_actions al vs cCOMMA Hne Hwf Hvs eq_refl).
+  destruct al as [|a r]; [congruence|].
+  cbn [forallb] in Hwf. apply andb_prop in Hwf as [Ha _].
+  cbn [wf_avars] in Hvs. apply andb_prop in Hvs as [Hva _].
+  destruct (wf_action_split a Ha) as (ty & Hn & _).
+  assert (Hpad : is_pad (av_pad (hd avar_plain vs)) = true) by (unfold wf_avar in Hva; now apply andb_prop in Hva as [? _]).
+  destruct (raw_key_facts (hd avar_plain vs) a ty Hpad Hn) as (Hpk & Hkne & _).
+  assert (exists c x, render_actions vs (a :: r) = c :: x /\ plain_key c = true) as (c & x & E & Hc).
+  { destruct (raw_key (hd avar_plain vs) a) as [|c k] eqn:EK; [congruence|].
+    cbn [forallb] in Hpk. apply andb_prop in Hpk as [Hc _].
+    destruct r as [|a' r'].
+    - exists c. eexists. split; [|exact Hc]. cbn [render_actions]. rewrite render_action_eq, EK. reflexivity.
+    - exists c. eexists. split; [|exact Hc].
+      change (render_actions vs (a :: a' :: r')) with
+        (render_action (hd avar_plain vs) a ++ cCOMMA :: render_actions (tl vs) (a' :: r')).
+      rewrite render_action_eq, EK. reflexivity. }
+  rewrite E. now apply pa_split_as_loop.
+Qed.
+
+Lemma raw_val_ok v a : wf_avar v a = true -> wf_qvalue (a_value a) cSQ = true ->
+  maybe_remove_quotes (p_trim_space (raw_val v a)) = a_value a.
+Proof.
+  intros Hv Hq. unfold wf_avar in Hv. apply andb_prop in Hv as [Hpad Hqu].
+  unfold raw_val. destruct (a_value a) as [|v0 val] eqn:EV; [reflexivity|].
+  rewrite (p_trim_space_pad _ _ Hpad). destruct (av_quote v).
+  - rewrite (p_trim_space_id (cSQ :: (v0 :: val) ++ [cSQ]) 0).
+    + apply maybe_remove_quotes_wrapped. now right.
+    + discriminate.
+    + reflexivity.
+    + change (cSQ :: (v0 :: val) ++ [cSQ]) with ((cSQ :: v0 :: val) ++ [cSQ]). now rewrite p_last_app.
+  - cbn [orb] in Hqu. unfold wf_uvalue in Hqu. apply andb_prop in Hqu as [Hqu Hm]. apply andb_prop in Hqu as [_ Ht].
+    apply bytes_eqb_eq in Ht, Hm. now rewrite Ht, Hm.
+Qed.
+
+Lemma count_disruptive_cons a r :
+  count_disruptive (a :: r) = ((if (a_type a =? 2)%N then 1 else 0) + count_disruptive r)%nat.
+Proof. unfold count_disruptive. cbn [filter]. destruct (a_type a =? 2); reflexivity. Qed.
+
+Lemma pa_build_raws al : forall vs res didx, forallb wf_action al = true -> wf_avars vs al = true ->
+  match didx with None => (count_disruptive al <= 1)%nat | Some _ => count_disruptive al = 0%nat end ->
+  pa_build (raws vs al) res didx = Some (res ++ al).
+Proof.
+  induction al as [|a r IH]; intros vs res didx Hwf Hvs Hcnt.
+  - cbn [raws pa_build]. now rewrite app_nil_r.
+  - cbn [forallb] in Hwf. apply andb_prop in Hwf as [Ha Hr].
+    cbn [wf_avars] in Hvs. apply andb_prop in Hvs as [Hva Hvr].
+    destruct (wf_action_split a Ha) as (ty & Hn & Hty & Hq & _).
+    set (v := hd avar_plain vs) in *.
+    assert (Hpad : is_pad (av_pad v) = true) by (unfold wf_avar in Hva; now apply andb_prop in Hva as [? _]).
+    destruct (raw_key_facts v a ty Hpad Hn) as (_ & _ & Hkey).
+    cbn [raws pa_build]. fold v. rewrite Hkey. rewrite (raw_val_ok v a Hva Hq).
+    destruct (action_name_ok _ _ Hn) as [Hlow _].
+    unfold lookup_action. rewrite (p_lower_lower _ Hlow), Hn.
+    assert (Ea : mk_action (a_name a) (a_value a) ty = a) by (destruct a; cbn in *; now subst).
+    rewrite Ea. rewrite count_disruptive_cons, Hty in Hcnt.
+    destruct (ty =? 2) eqn:E2.
+    + destruct didx as [i|]; [lia|].
+      rewrite (IH (tl vs) (res ++ [a]) (Some (length res)) Hr Hvr) by lia.
+      now rewrite <- app_assoc.
+    + rewrite (IH (tl vs) (res ++ [a]) didx Hr Hvr) by (destruct didx; lia).
+      now rewrite <- app_assoc.
+Qed.
+
+Theorem parse_actions_render vs al :
+  al <> [] -> forallb wf_action al = true -> wf_avars vs al = true -> (count_disruptive al <= 1)%nat ->
+  parse_actions (render_actions vs al) = Some al.
+Proof.
+  intros Hne Hwf Hvs Hc. unfold parse_actions. rewrite (pa_split_render vs al Hne Hwf Hvs).
+  exact (pa_build_raws al vs [] None Hwf Hvs Hc).
+Qed.
+
+(* ------------------------------------------------------------------------------------ *)
+(* Part 6: ParseVariables on rendered targets                                           *)
+(* ------------------------------------------------------------------------------------ *)
+Ltac red_curr :=
+  repeat first
+    [ progress change (0 =? 0) with true | progress change (0 =? 1) with false
+    | progress change (0 =? 2) with false | progress change (1 =? 0) with false
+    | progress change (1 =? 1) with true | progress change (1 =? 2) with false
+    | progress change (2 =? 0) with false | progress change (2 =? 1) with false
+    | progress change (2 =? 2) with true | progress change (3 =? 0) with false
+    | progress change (3 =? 1) with false | progress change (3 =? 2) with false ].
+Ltac pv_unfold :=
+  cbn [pv_loop pv_curr pv_neg pv_count pv_var pv_key pv_esc pv_quoted pv_res]; red_curr.
+
+Definition name_char (c : N) : bool :=
+  negb (c =? cPIPE) && negb (c =? cBANG) && negb (c =? cAMP) && negb (c =? cCOLON).
+Definition key1_char (c : N) : bool := negb (c =? cPIPE) && negb (c =? cSLASH) && negb (c =? cSQ).
+
+Lemma name_char_split c : name_char c = true ->
+  (c =? cPIPE) = false /\ (c =? cBANG) = false /\ (c =? cAMP) = false /\ (c =? cCOLON) = false.
+Proof.
+  unfold name_char. intros H. repeat (apply andb_prop in H as [H ?]).
+  repeat match goal with H : negb _ = true |- _ => apply negb_true_iff in H end. auto.
+Qed.
+Lemma key1_char_split c : key1_char c = true ->
+  (c =? cPIPE) = false /\ (c =? cSLASH) = false /\ (c =? cSQ) = false.
+Proof.
+  unfold key1_char. intros H. repeat (apply andb_prop in H as [H ?]).
+  repeat match goal with H : negb _ = true |- _ => apply negb_true_iff in H end. auto.
+Qed.
+
+(* one character that is simply appended, in each scanner state; the rest is not empty *)
+Lemma pv_s0 c x y ng ct var key e q res : name_char c = true ->
+  pv_loop (c :: x :: y) 0 (mk_pv 0 ng ct var key e q res)
+  = pv_loop (x :: y) 0 (mk_pv 0 ng ct (c :: var) key e q res).
+Proof.
+  intros H. destruct (name_char_split c H) as (E1 & E2 & E3 & E4).
+  pv_unfold. rewrite E1, E2, E3, E4. reflexivity.
+Qed.
+
+Lemma pv_s1 c x y ng ct var key e q res : key1_char c = true -> p_is_xml_or_json (rev var) = false ->
+  pv_loop (c :: x :: y) 0 (mk_pv 1 ng ct var key e q res)
+  = pv_loop (x :: y) 0 (mk_pv 1 ng ct var (c :: key) e q res).
+Proof.
+  intros H Hx. destruct (key1_char_split c H) as (E1 & E2 & E3).
+  pv_unfold. rewrite E1, E2, E3, Hx. destruct key; reflexivity.
+Qed.
+
+Lemma pv_s1x c x y ng ct var e q res : (c =? cPIPE) = false -> p_is_xml_or_json (rev var) = true ->
+  pv_loop (c :: x :: y) 0 (mk_pv 1 ng ct var [] e q res)
+  = pv_loop (x :: y) 0 (mk_pv 3 ng ct var [c] e q res).
+Proof. intros E1 Hx. pv_unfold. rewrite E1, Hx. reflexivity. Qed.
+
+Lemma pv_s3 c x y ng ct var key e q res : (c =? cPIPE) = false ->
+  pv_loop (c :: x :: y) 0 (mk_pv 3 ng ct var key e q res)
+  = pv_loop (x :: y) 0 (mk_pv 3 ng ct var (c :: key) e q res).
+Proof. intros E1. pv_unfold. rewrite E1. reflexivity. Qed.
+
+Lemma pv_bang x y ct var key e q res :
+  pv_loop (cBANG :: x :: y) 0 (mk_pv 0 false ct var key e q res)
+  = pv_loop (x :: y) 0 (mk_pv 0 true ct var key e q res).
+Proof. reflexivity. Qed.
+
+Lemma pv_amp x y ng var key e q res :
+  pv_loop (cAMP :: x :: y) 0 (mk_pv 0 ng false var key e q res)
+  = pv_loop (x :: y) 0 (mk_pv 0 ng true var key e q res).
+Proof. reflexivity. Qed.
+
+Lemma pv_colon x y ng ct var key e q res :
+  pv_loop (cCOLON :: x :: y) 0 (mk_pv 0 ng ct var key e q res)
+  = pv_loop (x :: y) 0 (mk_pv 1 ng ct var key e q res).
+Proof. reflexivity. Qed.
+
+Lemma pv_slash_open x y ng ct var e q res : p_is_xml_or_json (rev var) = false ->
+  pv_loop (cSLASH :: x :: y) 0 (mk_pv 1 ng ct var [] e q res)
+  = pv_loop (x :: y) 0 (mk_pv 2 ng ct var [] e q res).
+Proof. intros Hx. pv_unfold. change (cSLASH =? cPIPE) with false. rewrite Hx. reflexivity. Qed.
+
+Lemma pv_quote_open x y ng ct var e res : p_is_xml_or_json (rev var) = false ->
+  pv_loop (cSQ :: x :: y) 0 (mk_pv 1 ng ct var [] e false res)
+  = pv_loop (x :: y) 0 (mk_pv 1 ng ct var [] e true res).
+Proof. intros Hx. pv_unfold. change (cSQ =? cPIPE) with false. rewrite Hx. reflexivity. Qed.
+
+Lemma app_cons_form {A} (n : list A) x y : exists x' y', n ++ x :: y = x' :: y'.
+Proof. destruct n as [|a n]; [exists x, y|exists a, (n ++ x :: y)]; reflexivity. Qed.
+
+Lemma pv_r0 n : forall x y ng ct var key e q res, forallb name_char n = true ->
+  pv_loop (n ++ x :: y) 0 (mk_pv 0 ng ct var key e q res)
+  = pv_loop (x :: y) 0 (mk_pv 0 ng ct (rev n ++ var) key e q res).
+Proof.
+  induction n as [|c n IH]; intros x y ng ct var key e q res H; [reflexivity|].
+  cbn [forallb] in H. apply andb_prop in H as [Hc Hn]. cbn [app].
+  destruct (app_cons_form n x y) as (x' & y' & E). rewrite E. rewrite (pv_s0 c x' y' _ _ _ _ _ _ _ Hc).
+  rewrite <- E. rewrite (IH x y _ _ _ _ _ _ _ Hn). cbn [rev]. now rewrite <- app_assoc.
+Qed.
+
+Lemma pv_r1 k : forall x y ng ct var key e q res, forallb key1_char k = true ->
+  p_is_xml_or_json (rev var) = false ->
+  pv_loop (k ++ x :: y) 0 (mk_pv 1 ng ct var key e q res)
+  = pv_loop (x :: y) 0 (mk_pv 1 ng ct var (rev k ++ key) e q res).
+Proof.
+  induction k as [|c k IH]; intros x y ng ct var key e q res H Hx; [reflexivity|].
+  cbn [forallb] in H. apply andb_prop in H as [Hc Hk]. cbn [app].
+  destruct (app_cons_form k x y) as (x' & y' & E). rewrite E. rewrite (pv_s1 c x' y' _ _ _ _ _ _ _ Hc Hx).
+  rewrite <- E. rewrite (IH x y _ _ _ _ _ _ _ Hk Hx). cbn [rev]. now rewrite <- app_assoc.
+Qed.
+
+Lemma pv_r3 k : forall x y ng ct var key e q res, no_byte cPIPE k = true ->
+  pv_loop (k ++ x :: y) 0 (mk_pv 3 ng ct var key e q res)
+  = pv_loop (x :: y) 0 (mk_pv 3 ng ct var (rev k ++ key) e q res).
+Proof.
+  induction k as [|c k IH]; intros x y ng ct var key e q res H; [reflexivity|].
+  rewrite no_byte_cons in H. apply andb_prop in H as [Hc Hk]. apply negb_true_iff in Hc. cbn [app].
+  destruct (app_cons_form k x y) as (x' & y' & E). rewrite E. rewrite (pv_s3 c x' y' _ _ _ _ _ _ _ Hc).
+  rewrite <- E. rewrite (IH x y _ _ _ _ _ _ _ Hk). cbn [rev]. now rewrite <- app_assoc.
+Qed.
+
+(* an XPath-style key (XML / JSON): the first byte switches to state 3 *)
+Lemma pv_r1x k x y ng ct var e q res : k <> [] -> no_byte cPIPE k = true ->
+  p_is_xml_or_json (rev var) = true ->
+  pv_loop (k ++ x :: y) 0 (mk_pv 1 ng ct var [] e q res)
+  = pv_loop (x :: y) 0 (mk_pv 3 ng ct var (rev k) e q res).
+Proof.
+  intros Hne H Hx. destruct k as [|c k]; [congruence|].
+  rewrite no_byte_cons in H. apply andb_prop in H as [Hc Hk]. apply negb_true_iff in Hc. cbn [app].
+  destruct (app_cons_form k x y) as (x' & y' & E). rewrite E. rewrite (pv_s1x c x' y' _ _ _ _ _ _ Hc Hx).
+  rewrite <- E. rewrite (pv_r3 k x y _ _ _ _ _ _ _ Hk). reflexivity.
+Qed.
+
+Lemma pv_s2 c x y ng ct var key e q res : (c =? cSLASH) && negb e = false ->
+  pv_loop (c :: x :: y) 0 (mk_pv 2 ng ct var key e q res)
+  = pv_loop (x :: y) 0 (mk_pv 2 ng ct var (c :: key) (if c =? cBS then negb e else false) q res).
+Proof.
+  intros H. pv_unfold. rewrite andb_false_r. cbn [orb andb]. rewrite H.
+  destruct (c =? cBS) eqn:EB; [apply N.eqb_eq in EB; subst c|]; reflexivity.
+Qed.
+
+(* the body of a regex key up to its closing slash *)
+Lemma pv_r2 r : forall rest ng ct var key e q res, wf_rx r e = true ->
+  pv_loop (r ++ cSLASH :: rest) 0 (mk_pv 2 ng ct var key e q res)
+  = pv_loop (cSLASH :: rest) 0 (mk_pv 2 ng ct var (rev r ++ key) false q res).
+Proof.
+  induction r as [|c r IH]; intros rest ng ct var key e q res H.
+  - cbn [wf_rx] in H. apply negb_true_iff in H. subst e. reflexivity.
+  - cbn [wf_rx] in H. cbn [app].
+    destruct (app_cons_form r cSLASH rest) as (x' & y' & E). rewrite E.
+    assert (Hc : (c =? cSLASH) && negb e = false).
+    { destruct (c =? cSLASH); [|reflexivity]. apply andb_prop in H as [He _]. now subst e. }
+    rewrite (pv_s2 c x' y' _ _ _ _ _ _ _ Hc). rewrite <- E.
+    assert (Hr : wf_rx r (if c =? cBS then negb e else false) = true).
+    { destruct (c =? cSLASH) eqn:ES.
+      - apply N.eqb_eq in ES. subst c. change (cSLASH =? cBS) with false. now apply andb_prop in H as [_ H].
+      - destruct (c =? cBS); exact H. }
+    rewrite (IH rest _ _ _ _ _ _ _ Hr). cbn [rev]. now rewrite <- app_assoc.
+Qed.
+
+Definition pv_i (e : bool) (res : list tcall) : pv_state := mk_pv 0 false false [] [] e false res.
+Definition mkcall (ng ct : bool) (name key : bytes) : tcall := mk_tcall ng (if ng then false else ct) name key.
+
+(* closing a target at a pipe (states 0, 1, 3; not inside quotes) *)
+Lemma pv_f_pipe curr m ng ct var key e res name sel :
+  curr = 0 \/ curr = 1 \/ curr = 3 ->
+  lookup_variable (rev var) = Some (name, sel) -> (curr =? 1) && negb sel = false ->
+  pv_loop (cPIPE :: m) 0 (mk_pv curr ng ct var key e false res)
+  = pv_loop m 0 (pv_i e (mkcall ng ct name (rev key) :: res)).
+Proof.
+  intros Hc Hl Hs. destruct Hc as [ -> | [ -> | -> ] ]; pv_unfold; change (cPIPE =? cPIPE) with true;
+    cbn [andb orb negb]; rewrite Hl; try (change (1 =? 1) with true in Hs; cbn [andb] in Hs; rewrite Hs); reflexivity.
+Qed.
+
+(* closing the last target at the last byte *)
+Lemma pv_f_last0 c ng ct var key e res name sel :
+  (c =? cPIPE) = false -> lookup_variable (rev (c :: var)) = Some (name, sel) ->
+  pv_loop [c] 0 (mk_pv 0 ng ct var key e false res) = Some (rev (mkcall ng ct name (rev key) :: res)).
+Proof. intros E1 Hl. pv_unfold. rewrite E1. cbn [andb orb negb]. rewrite Hl. reflexivity. Qed.
+
+Lemma pv_f_last13 curr c ng ct var key e res name sel :
+  curr = 1 \/ curr = 3 -> (c =? cPIPE) = false -> (c =? cSLASH) = false ->
+  lookup_variable (rev var) = Some (name, sel) -> (curr =? 1) && negb sel = false ->
+  pv_loop [c] 0 (mk_pv curr ng ct var key e false res)
+  = Some (rev (mkcall ng ct name (rev (c :: key)) :: res)).
+Proof.
+  intros Hc E1 E2 Hl Hs. destruct Hc as [ -> | -> ]; pv_unfold; rewrite E1, E2; cbn [andb orb negb]; rewrite Hl;
+    try (change (1 =? 1) with true in Hs; cbn [andb] in Hs; rewrite Hs); reflexivity.
+Qed.
+
+(* closing a regex key at its unescaped slash *)
+Lemma pv_f_rx rest ng ct var key q res name sel :
+  lookup_variable (rev var) = Some (name, sel) ->
+  (q = true -> exists t, rest = cSQ :: t) ->
+  pv_loop (cSLASH :: rest) 0 (mk_pv 2 ng ct var key false q res)
+  = pv_loop rest (if q then 2%nat else 1%nat)
+            (pv_i false (mkcall ng ct name (cSLASH :: rev key ++ [cSLASH]) :: res)).
+Proof.
+  intros Hl Hq. pv_unfold. change (cSLASH =? cSLASH) with true. change (cSLASH =? cPIPE) with false.
+  change (cSLASH =? cSQ) with false. cbn [andb orb negb]. rewrite orb_true_r. rewrite Hl.
+  destruct q.
+  - destruct (Hq eq_refl) as (t & ->). reflexivity.
+  - reflexivity.
+Qed.
+
+Lemma pv_skip a rest k st : pv_loop (a :: rest) (S k) st = pv_loop rest k st.
+Proof. reflexivity. Qed.
+Lemma pv_end k st : pv_loop [] k st = Some (rev (pv_res st)).
+Proof. reflexivity. Qed.
+
+(* facts about the variable table *)
+Definition upper_us (c : N) : bool := ((65 <=? c) && (c <=? 90)) || (c =? 95).
+Lemma variable_names_ok :
+  forallb (fun e => forallb upper_us (fst e) && negb (match fst e with [] => true | _ => false end))
+          variable_table = true.
+Proof. vm_compute. reflexivity. Qed.
+
+Lemma upper_us_name_char c : upper_us c = true -> name_char c = true /\ ascii_upper c = c /\ nsp c = true.
+Proof.
+  unfold upper_us, name_char, ascii_upper, nsp, p_is_ascii_space. intros H.
+  assert (R : (65 <= c /\ c <= 90) \/ c = 95).
+  { apply orb_prop in H as [H|H]; [apply andb_prop in H as [A B]; apply N.leb_le in A, B; lia|apply N.eqb_eq in H; lia]. }
+  unfold cPIPE, cBANG, cAMP, cCOLON. split; [|split].
+  - repeat (apply andb_true_intro; split); apply negb_true_iff; apply N.eqb_neq; lia.
+  - assert (E : (97 <=? c) && (c <=? 122) = false) by (apply andb_false_intro1; apply N.leb_gt; lia). now rewrite E.
+  - apply andb_true_intro; split; [apply N.ltb_lt; lia|].
+    apply negb_true_iff; repeat (apply orb_false_intro); apply N.eqb_neq; lia.
+Qed.
+
+Lemma variable_name_ok name sel : p_assoc name variable_table = Some sel ->
+  forallb name_char name = true /\ name <> [] /\ lookup_variable name = Some (name, sel) /\ nsp (hd 0 name) = true.
+Proof.
+  intros H. pose proof (p_assoc_In _ _ _ H) as Hin.
+  pose proof (proj1 (forallb_forall _ variable_table) variable_names_ok (name, sel) Hin) as Hk.
+  cbn [fst] in Hk. apply andb_prop in Hk as [H1 H2].
+  assert (Hne : name <> []) by (destruct name; [discriminate|congruence]).
+  assert (Hu : p_upper name = name).
+  { unfold p_upper. clear -H1. induction name as [|c n IH]; [reflexivity|].
+    cbn [forallb] in H1. apply andb_prop in H1 as [Hc Hn]. cbn [map]. rewrite (IH Hn).
+    now rewrite (proj1 (proj2 (upper_us_name_char c Hc))). }
+  split; [|split; [exact Hne|split]].
+  - apply forallb_forall. intros x Hx. exact (proj1 (upper_us_name_char x (proj1 (forallb_forall _ _) H1 x Hx))).
+  - unfold lookup_variable. now rewrite Hu, H.
+  - destruct name as [|c n]; [congruence|]. cbn [hd]. cbn [forallb] in H1. apply andb_prop in H1 as [Hc _].
+    exact (proj2 (proj2 (upper_us_name_char c Hc))).
+Qed.
+
+Definition call_of (t : target) : tcall :=
+  mk_tcall (t_neg t) (t_count t) (t_var t) (key_bytes (t_key t)).
+
+Lemma flags_run (ng ct : bool) x y e res :
+  pv_loop ((if ng then [cBANG] else @nil N) ++ (if ct then [cAMP] else @nil N) ++ x :: y) 0 (pv_i e res)
+  = pv_loop (x :: y) 0 (mk_pv 0 ng ct [] [] e false res).
+Proof. destruct ng, ct; reflexivity. Qed.
+
+Lemma snoc_form {A} (l : list A) : l <> [] -> exists l' c, l = l' ++ [c].
+Proof. intros H. destruct (exists_last H) as (l' & c & E). eauto. Qed.
+
+Lemma no_byte_last ch s d : no_byte ch s = true -> s <> [] -> (last s d =? ch) = false.
+Proof.
+  intros H Hne. apply negb_true_iff. exact (last_forallb (fun c => negb (c =? ch)) s d H Hne).
+Qed.
+
+Lemma no_byte_snoc ch s c : no_byte ch (s ++ [c]) = true -> no_byte ch s = true /\ (c =? ch) = false.
+Proof.
+  rewrite no_byte_app. intros H. apply andb_prop in H as [H1 H2]. split; [exact H1|].
+  rewrite no_byte_cons in H2. apply andb_prop in H2 as [H2 _]. now apply negb_true_iff.
+Qed.
+
+Lemma key1_of_no_bytes k : no_byte cPIPE k = true -> no_byte cSLASH k = true -> no_byte cSQ k = true ->
+  forallb key1_char k = true.
+Proof.
+  intros H1 H2 H3. apply forallb_forall. intros x Hx. unfold key1_char.
+  rewrite (proj1 (forallb_forall _ _) H1 x Hx), (proj1 (forallb_forall _ _) H2 x Hx),
+          (proj1 (forallb_forall _ _) H3 x Hx). reflexivity.
+Qed.
+
+Definition tflags (ng ct : bool) : bytes := (if ng then [cBANG] else []) ++ (if ct then [cAMP] else []).
+
+Lemma pv_head (ng ct : bool) name x y res : forallb name_char name = true ->
+  pv_loop ((if ng then [cBANG] else @nil N) ++ (if ct then [cAMP] else @nil N) ++ name ++ x :: y) 0 (pv_i false res)
+  = pv_loop (x :: y) 0 (mk_pv 0 ng ct (rev name) [] false false res).
+Proof.
+  intros Hn.
+  destruct (app_cons_form name x y) as (x' & y' & E). rewrite E. rewrite flags_run. rewrite <- E.
+  rewrite (pv_r0 name x y _ _ _ _ _ _ _ Hn). now rewrite app_nil_r.
+Qed.
+
+Definition tail_ok (tail : bytes) : Prop := tail = [] \/ exists a m, tail = cPIPE :: a :: m.
+Definition after (tail : bytes) (res : list tcall) : option (list tcall) :=
+  match tail with [] => Some (rev res) | _ :: m => pv_loop m 0 (pv_i false res) end.
+
+Lemma mkcall_eq t : negb (t_neg t && t_count t) = true ->
+  mkcall (t_neg t) (t_count t) (t_var t) (key_bytes (t_key t)) = call_of t.
+Proof. unfold mkcall, call_of. destruct (t_neg t), (t_count t); try discriminate; reflexivity. Qed.
+
+Lemma lookup_rev_rev name r : lookup_variable name = r -> lookup_variable (rev (rev name)) = r.
+Proof. now rewrite rev_involutive. Qed.
+
+Lemma pv_target q t res tail : wf_target t = true -> tail_ok tail ->
+  pv_loop (render_target q t ++ tail) 0 (pv_i false res) = after tail (call_of t :: res).
+Proof.
+  intros Hwf Htail. unfold wf_target in Hwf.
+  destruct (p_assoc (t_var t) variable_table) as [sel|] eqn:Hn; [|discriminate].
+  apply andb_prop in Hwf as [Hkey Hnc].
+  destruct (variable_name_ok _ _ Hn) as (Hnm & Hne & Hlk & _).
+  rewrite <- (mkcall_eq t Hnc).
+  unfold render_target.
+  set (ng := t_neg t). set (ct := t_count t). set (name := t_var t) in *.
+  rewrite <- !app_assoc.
+  destruct (t_key t) as [|k|r] eqn:EK; cbn [render_key key_bytes wf_key] in *.
+  - (* no key *)
+    cbn [app]. destruct Htail as [->|(a & m & ->)].
+    + rewrite app_nil_r. destruct (snoc_form name Hne) as (n' & c & En). rewrite En in *.
+      rewrite forallb_app in Hnm. apply andb_prop in Hnm as [Hn' Hc]. cbn [forallb] in Hc.
+      apply andb_prop in Hc as [Hc _]. destruct (name_char_split c Hc) as (E1 & _).
+      rewrite (pv_head ng ct n' c [] res Hn').
+      rewrite (pv_f_last0 c ng ct (rev n') [] false res (n' ++ [c]) sel E1).
+      * reflexivity.
+      * change (c :: rev n') with (rev (n' ++ [c])) || (rewrite <- (rev_unit n' c)). now apply lookup_rev_rev.
+    + rewrite (pv_head ng ct name cPIPE (a :: m) res Hnm).
+      rewrite (pv_f_pipe 0 (a :: m) ng ct (rev name) [] false res name sel); [reflexivity|now left| |reflexivity].
+      now apply lookup_rev_rev.
+  - (* string key *)
+    apply andb_prop in Hkey as [Hkey Hxj]. apply andb_prop in Hkey as [Hkey Hpipe].
+    apply andb_prop in Hkey as [Hkey Hts]. apply andb_prop in Hkey as [Hsel Hkne].
+    subst sel. assert (Hk : k <> []) by (destruct k; [discriminate|congruence]). clear Hkne.
+    cbn [app].
+    destruct (p_is_xml_or_json name) eqn:EX.
+    + (* XML / JSON: XPath-like key *)
+      apply negb_true_iff in Hxj.
+      destruct Htail as [->|(a & m & ->)].
+      * rewrite app_nil_r. destruct (snoc_form k Hk) as (k' & c & Ek). subst k.
+        destruct (no_byte_snoc _ _ _ Hpipe) as [Hp' Hcp]. unfold p_last in Hxj. rewrite last_last in Hxj.
+        destruct (app_cons_form k' c []) as (x' & y' & E).
+        rewrite E. rewrite (pv_head ng ct name cCOLON (x' :: y') res Hnm). rewrite pv_colon. rewrite <- E.
+        destruct k' as [|k0 k''].
+        -- cbn [app]. rewrite (pv_f_last13 1 c ng ct (rev name) [] false res name true); [reflexivity|now left|exact Hcp|exact Hxj| |reflexivity].
+           now apply lookup_rev_rev.
+        -- rewrite (pv_r1x (k0 :: k'') c [] ng ct (rev name) false false res); [|discriminate|exact Hp'|now rewrite rev_involutive].
+           rewrite (pv_f_last13 3 c ng ct (rev name) (rev (k0 :: k'')) false res name true); [|now right|exact Hcp|exact Hxj| |reflexivity].
+           ++ cbn [after]. do 4 f_equal. change (c :: rev (k0 :: k'')) with (rev ((k0 :: k'') ++ [c])) || rewrite <- rev_unit. now rewrite rev_involutive.
+           ++ now apply lookup_rev_rev.
+      * destruct (app_cons_form k cPIPE (a :: m)) as (x' & y' & E).
+        rewrite E. rewrite (pv_head ng ct name cCOLON (x' :: y') res Hnm). rewrite pv_colon. rewrite <- E.
+        rewrite (pv_r1x k cPIPE (a :: m) ng ct (rev name) false false res Hk Hpipe); [|now rewrite rev_involutive].
+        rewrite (pv_f_pipe 3 (a :: m) ng ct (rev name) (rev k) false res name true); [|now right; right| |reflexivity].
+        -- cbn [after]. now rewrite rev_involutive.
+        -- now apply lookup_rev_rev.
+    + (* ordinary collection: plain key *)
+      apply andb_prop in Hxj as [Hsl Hsq].
+      pose proof (key1_of_no_bytes k Hpipe Hsl Hsq) as Hk1.
+      destruct Htail as [->|(a & m & ->)].
+      * rewrite app_nil_r. destruct (snoc_form k Hk) as (k' & c & Ek). subst k.
+        destruct (no_byte_snoc _ _ _ Hpipe) as [_ Hcp]. destruct (no_byte_snoc _ _ _ Hsl) as [_ Hcs].
+        rewrite forallb_app in Hk1. apply andb_prop in Hk1 as [Hk1 _].
+        destruct (app_cons_form k' c []) as (x' & y' & E).
+        rewrite E. rewrite (pv_head ng ct name cCOLON (x' :: y') res Hnm). rewrite pv_colon. rewrite <- E.
+        rewrite (pv_r1 k' c [] ng ct (rev name) [] false false res Hk1); [|now rewrite rev_involutive].
+        rewrite (pv_f_last13 1 c ng ct (rev name) (rev k' ++ []) false res name true); [|now left|exact Hcp|exact Hcs| |reflexivity].
+        -- cbn [after]. do 4 f_equal. rewrite app_nil_r. rewrite <- rev_unit. now rewrite rev_involutive.
+        -- now apply lookup_rev_rev.
+      * destruct (app_cons_form k cPIPE (a :: m)) as (x' & y' & E).
+        rewrite E. rewrite (pv_head ng ct name cCOLON (x' :: y') res Hnm). rewrite pv_colon. rewrite <- E.
+        rewrite (pv_r1 k cPIPE (a :: m) ng ct (rev name) [] false false res Hk1); [|now rewrite rev_involutive].
+        rewrite (pv_f_pipe 1 (a :: m) ng ct (rev name) (rev k ++ []) false res name true); [|now right; left| |reflexivity].
+        -- cbn [after]. now rewrite app_nil_r, rev_involutive.
+        -- now apply lookup_rev_rev.
+  - (* regex key *)
+    apply andb_prop in Hkey as [Hkey Hrx]. apply andb_prop in Hkey as [Hxj Hts]. apply negb_true_iff in Hxj.
+    assert (Hxr : p_is_xml_or_json (rev (rev name)) = false) by now rewrite rev_involutive.
+    assert (Hlr : lookup_variable (rev (rev name)) = Some (name, sel)) by now apply lookup_rev_rev.
+    destruct q.
+    + (* in single quotes *)
+      cbn [app]. rewrite <- !app_assoc. cbn [app].
+      rewrite (pv_head ng ct name cCOLON _ res Hnm). rewrite pv_colon.
+      destruct (app_cons_form r cSLASH (cSQ :: tail)) as (x' & y' & E).
+      rewrite (pv_quote_open cSLASH _ ng ct (rev name) false res Hxr).
+      rewrite E. rewrite (pv_slash_open x' y' ng ct (rev name) false true res Hxr). rewrite <- E.
+      rewrite (pv_r2 r _ ng ct (rev name) [] false true res Hrx).
+      rewrite (pv_f_rx (cSQ :: tail) ng ct (rev name) (rev r ++ []) true res name sel Hlr) by (intros _; eauto).
+      rewrite pv_skip. rewrite app_nil_r, rev_involutive.
+      destruct Htail as [->|(a & m & ->)]; reflexivity.
+    + cbn [app]. rewrite <- !app_assoc. cbn [app].
+      rewrite (pv_head ng ct name cCOLON _ res Hnm). rewrite pv_colon.
+      destruct (app_cons_form r cSLASH tail) as (x' & y' & E).
+      rewrite E. rewrite (pv_slash_open x' y' ng ct (rev name) false false res Hxr). rewrite <- E.
+      rewrite (pv_r2 r _ ng ct (rev name) [] false false res Hrx).
+      rewrite (pv_f_rx tail ng ct (rev name) (rev r ++ []) false res name sel Hlr) by discriminate.
+      rewrite app_nil_r, rev_involutive.
+      destruct Htail as [->|(a & m & ->)]; reflexivity.
+Qed.
+
+Lemma render_target_form q t : wf_target t = true -> exists a m, render_target q t = a :: m /\ nsp a = true.
+Proof.
+  intros Hwf. unfold wf_target in Hwf.
+  destruct (p_assoc (t_var t) variable_table) as [sel|] eqn:Hn; [|discriminate].
+  destruct (variable_name_ok _ _ Hn) as (_ & Hne & _ & Hh).
+  unfold render_target. destruct (t_var t) as [|c n]; [congruence|]. cbn [hd] in Hh.
+  destruct (t_neg t), (t_count t); cbn [app]; eexists; eexists; (split; [reflexivity|]); try reflexivity; exact Hh.
+Qed.
+
+Lemma render_targets_form qs ts : ts <> [] -> forallb wf_target ts = true ->
+  exists a m, render_targets qs ts = a :: m /\ nsp a = true.
+Proof.
+  intros Hne Hwf. destruct ts as [|t r]; [congruence|].
+  cbn [forallb] in Hwf. apply andb_prop in Hwf as [Ht _].
+  destruct (render_target_form (hd false qs) t Ht) as (a & m & E & Ha).
+  destruct r as [|t' r'].
+  - exists a, m. cbn [render_targets]. now split.
+  - exists a. eexists. split; [|exact Ha].
+    change (render_targets qs (t :: t' :: r')) with (render_target (hd false qs) t ++ cPIPE :: render_targets (tl qs) (t' :: r')).
+    rewrite E. reflexivity.
+Qed.
+
+Lemma pv_targets ts : forall qs res, ts <> [] -> forallb wf_target ts = true ->
+  pv_loop (render_targets qs ts) 0 (pv_i false res) = Some (rev res ++ map call_of ts).
+Proof.
+  induction ts as [|t r IH]; intros qs res Hne Hwf; [congruence|].
+  cbn [forallb] in Hwf. apply andb_prop in Hwf as [Ht Hr].
+  destruct r as [|t' r'].
+  - cbn [render_targets]. rewrite <- (app_nil_r (render_target (hd false qs) t)).
+    rewrite (pv_target _ t res [] Ht) by now left. cbn [after map rev]. reflexivity.
+  - change (render_targets qs (t :: t' :: r')) with (render_target (hd false qs) t ++ cPIPE :: render_targets (tl qs) (t' :: r')).
+    destruct (render_targets_form (tl qs) (t' :: r')) as (a & m & E & _); [discriminate|exact Hr|].
+    rewrite E. rewrite (pv_target _ t res (cPIPE :: a :: m) Ht) by (right; eauto).
+    cbn [after]. rewrite <- E. rewrite (IH (tl qs) (call_of t :: res)) by (try discriminate; exact Hr).
+    cbn [rev map]. now rewrite <- app_assoc.
+Qed.
+
+(* how AddVariable reads the key back *)
+Fixpoint final_esc (s : bytes) (e : bool) : bool :=
+  match s with
+  | [] => e
+  | c :: r => if c =? cBS then final_esc r (negb e) else final_esc r false
+  end.
+
+Lemma wf_rx_final r : forall e, wf_rx r e = true -> final_esc r e = false.
+Proof.
+  induction r as [|c r IH]; intros e H; cbn [wf_rx final_esc] in *.
+  - now apply negb_true_iff in H.
+  - destruct (c =? cSLASH) eqn:ES.
+    + apply N.eqb_eq in ES. subst c. change (cSLASH =? cBS) with false. apply andb_prop in H as [_ H]. now apply IH.
+    + destruct (c =? cBS); now apply IH.
+Qed.
+
+Lemma final_esc_snoc r c : forall e,
+  final_esc (r ++ [c]) e = if c =? cBS then negb (final_esc r e) else false.
+Proof.
+  induction r as [|x r IH]; intros e; cbn [app final_esc].
+  - destruct (c =? cBS); reflexivity.
+  - destruct (x =? cBS); apply IH.
+Qed.
+
+Lemma final_esc_count r : final_esc r false = Nat.odd (p_count_lead cBS (rev r)).
+Proof.
+  induction r as [|c r IH] using rev_ind; [reflexivity|].
+  rewrite final_esc_snoc, rev_unit. cbn [p_count_lead]. destruct (c =? cBS); [|reflexivity].
+  rewrite IH. rewrite Nat.odd_succ. now rewrite <- Nat.negb_odd.
+Qed.
+
+Lemma has_regex_slashes r : wf_rx r false = true -> has_regex (cSLASH :: r ++ [cSLASH]) = Some r.
+Proof.
+  intros H. unfold has_regex.
+  destruct (r ++ [cSLASH]) as [|x y] eqn:E; [destruct r; discriminate|].
+  rewrite <- E. rewrite p_last_app. change (cSLASH =? cSLASH) with true. cbn [negb].
+  rewrite removelast_last.
+  pose proof (wf_rx_final r false H) as Hf. rewrite final_esc_count in Hf.
+  rewrite <- Nat.negb_odd. now rewrite Hf.
+Qed.
+
+Lemma classify_key_bytes var sel k : wf_key var sel k = true -> classify_key (key_bytes k) = k.
+Proof.
+  destruct k as [|s|r]; cbn [wf_key key_bytes]; intros H.
+  - reflexivity.
+  - apply andb_prop in H as [H Hxj]. apply andb_prop in H as [H Hpipe]. apply andb_prop in H as [H Hts].
+    apply andb_prop in H as [_ Hne].
+    destruct s as [|a s']; [discriminate|]. unfold classify_key.
+    assert (Hr : has_regex (a :: s') = None).
+    { unfold has_regex. destruct s' as [|b s'']; [reflexivity|].
+      destruct (a =? cSLASH) eqn:EA; [|reflexivity]. cbn [negb].
+      destruct (p_is_xml_or_json var).
+      - change (p_last (a :: b :: s'')) with (p_last (b :: s'')) in Hxj. now rewrite Hxj.
+      - apply andb_prop in Hxj as [Hsl _]. rewrite no_byte_cons in Hsl. apply andb_prop in Hsl as [Ha _].
+        rewrite EA in Ha. discriminate. }
+    now rewrite Hr.
+  - apply andb_prop in H as [_ Hrx]. unfold classify_key. now rewrite (has_regex_slashes r Hrx).
+Qed.
+
+Lemma target_of_call_of t : wf_target t = true -> target_of_call (call_of t) = t.
+Proof.
+  intros H. unfold wf_target in H. destruct (p_assoc (t_var t) variable_table) as [sel|]; [|discriminate].
+  apply andb_prop in H as [Hk _]. unfold target_of_call, call_of. cbn [tc_neg tc_count tc_var tc_key].
+  rewrite (classify_key_bytes _ _ _ Hk). now destruct t.
+Qed.
+
+Theorem parse_variables_render qs ts : ts <> [] -> forallb wf_target ts = true ->
+  option_map (map target_of_call) (parse_variables (render_targets qs ts)) = Some ts.
+Proof.
+  intros Hne Hwf. unfold parse_variables. change pv_init with (pv_i false []).
+  rewrite (pv_targets ts qs [] Hne Hwf). cbn [rev app option_map]. f_equal.
+  rewrite map_map. clear Hne. induction ts as [|t r IH]; [reflexivity|].
+  cbn [forallb] in Hwf. apply andb_prop in Hwf as [Ht Hr]. cbn [map]. rewrite (target_of_call_of t Ht).
+  now rewrite (IH Hr).
+Qed.
+
+(* ------------------------------------------------------------------------------------ *)
+(* Part 7: ParseRule on a rendered rule, evaluateLine on a rendered line                *)
+(* ------------------------------------------------------------------------------------ *)
+Lemma render_actions_form vs a r : wf_action a = true -> wf_avar (hd avar_plain vs) a = true ->
+  exists c x, render_actions vs (a :: r) = c :: x.
+Proof.
+  intros Ha Hva. destruct (wf_action_split a Ha) as (ty & Hn & _).
+  assert (Hpad : is_pad (av_pad (hd avar_plain vs)) = true) by (unfold wf_avar in Hva; now apply andb_prop in Hva as [? _]).
+  destruct (raw_key_facts (hd avar_plain vs) a ty Hpad Hn) as (_ & Hkne & _).
+  destruct (raw_key (hd avar_plain vs) a) as [|c k] eqn:EK; [congruence|].
+  destruct r as [|a' r'].
+  - exists c. eexists. cbn [render_actions]. rewrite render_action_eq, EK. reflexivity.
+  - exists c. eexists.
+    change (render_actions vs (a :: a' :: r')) with
+      (render_action (hd avar_plain vs) a ++ cCOMMA :: render_actions (tl vs) (a' :: r')).
+    rewrite render_action_eq, EK. reflexivity.
+Qed.
+
+Lemma upper_us_no ch s : forallb upper_us s = true -> upper_us ch = false -> no_byte ch s = true.
+Proof.
+  intros H Hc. unfold no_byte. apply forallb_forall. intros x Hx. apply negb_true_iff. apply N.eqb_neq.
+  intros E. subst. now rewrite (proj1 (forallb_forall _ _) H ch Hx) in Hc.
+Qed.
+
+Lemma variable_name_upper name sel : p_assoc name variable_table = Some sel -> forallb upper_us name = true.
+Proof.
+  intros H. pose proof (p_assoc_In _ _ _ H) as Hin.
+  pose proof (proj1 (forallb_forall _ variable_table) variable_names_ok (name, sel) Hin) as Hk.
+  cbn [fst] in Hk. now apply andb_prop in Hk as [H1 _].
+Qed.
+
+(* neither a space nor a line feed inside the rendered targets *)
+Lemma render_target_safe ch q t : ch = cSP \/ ch = cLF -> wf_target t = true ->
+  no_byte ch (render_target q t) = true.
+Proof.
+  intros Hch Hwf. unfold wf_target in Hwf.
+  destruct (p_assoc (t_var t) variable_table) as [sel|] eqn:Hn; [|discriminate].
+  apply andb_prop in Hwf as [Hkey _].
+  pose proof (variable_name_upper _ _ Hn) as Hup.
+  assert (Hts : forall s, token_safe s = true -> no_byte ch s = true).
+  { intros s Hs. unfold token_safe in Hs. apply andb_prop in Hs as [A B]. destruct Hch; subst; assumption. }
+  unfold render_target. rewrite !no_byte_app. repeat (apply andb_true_intro; split).
+  - destruct Hch; subst; destruct (t_neg t); reflexivity.
+  - destruct Hch; subst; destruct (t_count t); reflexivity.
+  - apply upper_us_no; [exact Hup|destruct Hch; subst; reflexivity].
+  - destruct (t_key t) as [|k|r]; cbn [render_key wf_key] in *.
+    + reflexivity.
+    + apply andb_prop in Hkey as [Hkey _]. apply andb_prop in Hkey as [Hkey _]. apply andb_prop in Hkey as [_ Hs].
+      rewrite no_byte_cons, (Hts _ Hs). destruct Hch; subst; reflexivity.
+    + apply andb_prop in Hkey as [Hkey _]. apply andb_prop in Hkey as [_ Hs].
+      destruct q; rewrite !no_byte_cons, no_byte_app, (Hts _ Hs); destruct Hch; subst; reflexivity.
+Qed.
+
+Lemma render_targets_safe ch ts : forall qs, ch = cSP \/ ch = cLF -> forallb wf_target ts = true ->
+  no_byte ch (render_targets qs ts) = true.
+Proof.
+  induction ts as [|t r IH]; intros qs Hch Hwf; [reflexivity|].
+  cbn [forallb] in Hwf. apply andb_prop in Hwf as [Ht Hr].
+  destruct r as [|t' r'].
+  - cbn [render_targets]. now apply render_target_safe.
+  - change (render_targets qs (t :: t' :: r')) with (render_target (hd false qs) t ++ cPIPE :: render_targets (tl qs) (t' :: r')).
+    rewrite no_byte_app, no_byte_cons, (render_target_safe ch _ t Hch Ht), (IH (tl qs) Hch Hr).
+    destruct Hch; subst; reflexivity.
+Qed.
+
+Definition op_body (o : opdesc) : bytes := o_fn o ++ match o_arg o with [] => [] | a => cSP :: a end.
+
+Lemma wf_op_facts o : wf_op o = true ->
+  o_fn o = op_prefix (o_neg o) ++ o_name o /\ operator_known (o_name o) = true /\
+  p_trim_space (o_arg o) = o_arg o /\ wf_esc (o_arg o) false = true /\ line_safe (o_arg o) = true.
+Proof.
+  unfold wf_op. intros H. apply andb_prop in H as [H H5]. apply andb_prop in H as [H H4].
+  apply andb_prop in H as [H H3]. apply andb_prop in H as [H1 H2].
+  apply bytes_eqb_eq in H2, H3. auto.
+Qed.
+
+Lemma op_fn_plain o : wf_op o = true ->
+  no_byte cDQ (o_fn o) = true /\ no_byte cBS (o_fn o) = true /\ no_byte cLF (o_fn o) = true.
+Proof.
+  intros H. destruct (wf_op_facts o H) as (Efn & Hk & _). rewrite Efn.
+  destruct (operator_known_ok _ Hk) as [Hal _].
+  rewrite !no_byte_app.
+  rewrite (forallb_alnum_no_byte _ cDQ Hal eq_refl), (forallb_alnum_no_byte _ cBS Hal eq_refl),
+          (forallb_alnum_no_byte _ cLF Hal eq_refl).
+  destruct (o_neg o); repeat split; reflexivity.
+Qed.
+
+Lemma render_op_eq o : wf_op o = true -> render_op o = cDQ :: escape_dq (op_body o) ++ [cDQ].
+Proof.
+  intros H. destruct (op_fn_plain o H) as (Hq & _). unfold render_op, op_body.
+  rewrite (escape_dq_app_noq _ _ Hq). rewrite <- app_assoc. destruct (o_arg o) as [|a0 arg]; [reflexivity|].
+  reflexivity.
+Qed.
+
+Lemma op_body_wf o : wf_op o = true -> wf_esc (op_body o) false = true.
+Proof.
+  intros H. destruct (op_fn_plain o H) as (Hq & Hb & _). destruct (wf_op_facts o H) as (_ & _ & _ & He & _).
+  unfold op_body. apply wf_esc_app_plain; [exact Hq|exact Hb|].
+  destruct (o_arg o) as [|a0 arg]; [reflexivity|]. exact He.
+Qed.
+
+Lemma parse_operator_body o : wf_op o = true -> parse_operator (op_body o) = Some o.
+Proof.
+  intros H. destruct (wf_op_facts o H) as (Efn & Hk & Ht & _).
+  unfold op_body. rewrite Efn. rewrite <- app_assoc.
+  pose proof (po_render (o_name o) (o_neg o) (o_arg o) Hk Ht) as P.
+  destruct (o_arg o) as [|a0 arg] eqn:EA; rewrite P; f_equal; destruct o; cbn in *; now subst.
+Qed.
+
+Lemma match_nonempty {A B} (l : list A) (x y : B) : l <> [] ->
+  match l with [] => x | _ :: _ => y end = y.
+Proof. destruct l; [congruence|reflexivity]. Qed.
+
+Theorem parse_rule_render v d : wf_desc d = true -> wf_rvar v d = true ->
+  parse_rule (render_rule v d) = Some d.
+Proof.
+  intros Hwf Hv. unfold wf_desc in Hwf.
+  apply andb_prop in Hwf as [Hwf Hcnt]. apply andb_prop in Hwf as [Hwf Hacts].
+  apply andb_prop in Hwf as [Hwf Hop]. apply andb_prop in Hwf as [Hne Hts].
+  destruct d as [ts op al]. cbn [r_targets r_op r_actions] in *.
+  destruct op as [o|]; [|discriminate].
+  assert (Htne : ts <> []) by (destruct ts; [discriminate|congruence]).
+  apply Nat.leb_le in Hcnt. unfold wf_rvar in Hv. cbn [r_actions] in Hv.
+  unfold render_rule. cbn [r_targets r_op r_actions].
+  rewrite (render_op_eq o Hop).
+  set (vars := render_targets (rv_tquote v) ts).
+  set (acts := render_actions (rv_avars v) al).
+  replace (vars ++ cSP :: p_spaces (rv_gap1 v) ++ (cDQ :: escape_dq (op_body o) ++ [cDQ]) ++
+           cSP :: p_spaces (rv_gap2 v) ++ cDQ :: acts ++ [cDQ])
+    with (vars ++ cSP :: p_spaces (rv_gap1 v) ++ cDQ :: escape_dq (op_body o) ++ cDQ ::
+          cSP :: p_spaces (rv_gap2 v) ++ cDQ :: acts ++ [cDQ])
+    by (cbn [app]; rewrite <- app_assoc; reflexivity).
+  destruct (render_targets_form (rv_tquote v) ts Htne Hts) as (a0 & m0 & Evars & Ha0).
+  assert (Hvne : vars <> []) by (unfold vars; rewrite Evars; discriminate).
+  pose proof (render_targets_safe cSP ts (rv_tquote v) (or_introl eq_refl) Hts) as Hvsp.
+  pose proof (pao_render vars (op_body o) acts (rv_gap1 v) (rv_gap2 v) Hvne Hvsp (op_body_wf o Hop)) as Hpao.
+  unfold parse_rule.
+  set (data := vars ++ cSP :: p_spaces (rv_gap1 v) ++ cDQ :: escape_dq (op_body o) ++ cDQ ::
+               cSP :: p_spaces (rv_gap2 v) ++ cDQ :: acts ++ [cDQ]) in *.
+  assert (Htrim : p_trim_space data = data).
+  { apply (p_trim_space_id data 0).
+    - unfold data, vars. rewrite Evars. discriminate.
+    - unfold data, vars. rewrite Evars. exact Ha0.
+    - unfold data.
+      replace (vars ++ cSP :: p_spaces (rv_gap1 v) ++ cDQ :: escape_dq (op_body o) ++ cDQ :: cSP :: p_spaces (rv_gap2 v) ++ cDQ :: acts ++ [cDQ])
+        with ((vars ++ cSP :: p_spaces (rv_gap1 v) ++ cDQ :: escape_dq (op_body o) ++ cDQ :: cSP :: p_spaces (rv_gap2 v) ++ cDQ :: acts) ++ [cDQ]).
+      + rewrite p_last_app. reflexivity.
+      + repeat (rewrite <- ?app_assoc; cbn [app]). reflexivity. }
+  rewrite Htrim.
+  assert (Hdne : data <> []) by (unfold data; destruct vars; [congruence|discriminate]).
+  rewrite (match_nonempty data _ _ Hdne).
+  rewrite Hpao.
+  pose proof (parse_variables_render (rv_tquote v) ts Htne Hts) as Hpv. fold vars in Hpv.
+  destruct (parse_variables vars) as [calls|]; [|discriminate]. cbn [option_map] in Hpv. inversion Hpv as [Hmap].
+  rewrite (parse_operator_body o Hop).
+  destruct al as [|a r].
+  - reflexivity.
+  - cbn [forallb] in Hacts. pose proof Hacts as Hacts'. apply andb_prop in Hacts' as [Ha _].
+    cbn [wf_avars] in Hv. pose proof Hv as Hv'. apply andb_prop in Hv' as [Hva _].
+    destruct (render_actions_form (rv_avars v) a r Ha Hva) as (c & x & Eacts).
+    unfold acts. rewrite Eacts. rewrite <- Eacts.
+    rewrite (parse_actions_render (rv_avars v) (a :: r)); [reflexivity|discriminate|exact Hacts|exact Hv|exact Hcnt].
+Qed.
+
+(* the first byte of the rendered targets *)
+Definition tstart (a : N) : bool := upper_us a || (a =? cBANG) || (a =? cAMP).
+Lemma tstart_facts a : tstart a = true -> nsp a = true /\ (a =? cDQ) = false /\ (a =? cHASH) = false.
+Proof.
+  unfold tstart. intros H. apply orb_prop in H as [H|H]; [apply orb_prop in H as [H|H]|].
+  - destruct (upper_us_name_char a H) as (_ & _ & Hn). split; [exact Hn|].
+    unfold upper_us in H. split; apply N.eqb_neq; intros E; subst a; discriminate.
+  - apply N.eqb_eq in H. subst a. repeat split; reflexivity.
+  - apply N.eqb_eq in H. subst a. repeat split; reflexivity.
+Qed.
+
+Lemma render_targets_start qs ts : ts <> [] -> forallb wf_target ts = true ->
+  exists a m, render_targets qs ts = a :: m /\ tstart a = true.
+Proof.
+  intros Hne Hwf. destruct ts as [|t r]; [congruence|].
+  cbn [forallb] in Hwf. apply andb_prop in Hwf as [Ht _].
+  assert (exists a m, render_target (hd false qs) t = a :: m /\ tstart a = true) as (a & m & E & Ha).
+  { unfold wf_target in Ht. destruct (p_assoc (t_var t) variable_table) as [sel|] eqn:Hn; [|discriminate].
+    pose proof (variable_name_upper _ _ Hn) as Hup. destruct (variable_name_ok _ _ Hn) as (_ & Hne' & _).
+    unfold render_target. destruct (t_var t) as [|c n]; [congruence|].
+    cbn [forallb] in Hup. apply andb_prop in Hup as [Hc _].
+    destruct (t_neg t), (t_count t); cbn [app]; eexists; eexists; (split; [reflexivity|]); try reflexivity.
+    unfold tstart. now rewrite Hc. }
+  destruct r as [|t' r'].
+  - exists a, m. cbn [render_targets]. now split.
+  - exists a. eexists. split; [|exact Ha].
+    change (render_targets qs (t :: t' :: r')) with (render_target (hd false qs) t ++ cPIPE :: render_targets (tl qs) (t' :: r')).
+    rewrite E. reflexivity.
+Qed.
+
+Lemma letters_no ch s : forallb letter_ s = true -> letter_ ch = false -> no_byte ch s = true.
+Proof.
+  intros H Hc. unfold no_byte. apply forallb_forall. intros x Hx. apply negb_true_iff. apply N.eqb_neq.
+  intros E. subst. now rewrite (proj1 (forallb_forall _ _) H ch Hx) in Hc.
+Qed.
+
+Lemma kw_secrule_letters : forallb letter_ kw_secrule = true.
+Proof. reflexivity. Qed.
+
+Theorem evaluate_line_render mask v d : wf_desc d = true -> wf_rvar v d = true ->
+  evaluate_line (render_line mask v d) = LRule d.
+Proof.
+  intros Hwf Hv. pose proof (parse_rule_render v d Hwf Hv) as Hpr.
+  unfold wf_desc in Hwf. apply andb_prop in Hwf as [Hwf _]. apply andb_prop in Hwf as [Hwf _].
+  apply andb_prop in Hwf as [Hwf _]. apply andb_prop in Hwf as [Hne Hts].
+  assert (Htne : r_targets d <> []) by (destruct (r_targets d); [discriminate|congruence]).
+  destruct (render_targets_start (rv_tquote v) _ Htne Hts) as (a & m & Ev & Ha).
+  destruct (tstart_facts a Ha) as (_ & Hadq & _).
+  pose proof (vary_case_letters mask _ kw_secrule_letters) as Hlet.
+  unfold render_line. set (kw := vary_case mask kw_secrule) in *.
+  assert (Hkw : exists k0 k', kw = k0 :: k' /\ (k0 =? cHASH) = false).
+  { unfold kw, kw_secrule. destruct mask as [|b mask]; cbn [str vary_case]; [eexists; eexists; split; reflexivity|].
+    destruct b; eexists; eexists; split; reflexivity. }
+  destruct Hkw as (k0 & k' & Ekw & Hk0).
+  unfold evaluate_line. rewrite Ekw. cbn [app]. rewrite Hk0.
+  change (k0 :: k' ++ cSP :: render_rule v d) with ((k0 :: k') ++ cSP :: render_rule v d). rewrite <- Ekw.
+  rewrite (p_cut_app cSP kw (render_rule v d)) by (apply letters_no; [exact Hlet|reflexivity]).
+  assert (Hdir : p_lower kw = d_secrule) by (unfold kw; rewrite p_lower_vary; reflexivity).
+  rewrite Hdir.
+  assert (Hopts : exists x, render_rule v d = a :: x).
+  { unfold render_rule. rewrite Ev. eexists. reflexivity. }
+  destruct Hopts as (x & Eopts).
+  assert (Hq : p_is_quoted_dq (render_rule v d) = false).
+  { rewrite Eopts. unfold p_is_quoted_dq. destruct x; [reflexivity|]. now rewrite Hadq. }
+  rewrite Hq, andb_false_r.
+  change (bytes_eqb d_secrule d_include) with false. change (bytes_eqb d_secrule d_secrule) with true. cbn match.
+  rewrite Hpr. rewrite Eopts. reflexivity.
+Qed.
+
+(* ------------------------------------------------------------------------------------ *)
+(* Part 8: line assembly (parseString): comments, blank lines, indentation, continuation *)
+(* ------------------------------------------------------------------------------------ *)
+Definition skipped_line (raw : bytes) : Prop :=
+  p_trim_space raw = [] \/ exists r, p_trim_space raw = cHASH :: r.
+
+Lemma ps_skip ev raw rest buf inbt g : skipped_line raw ->
+  ps_loop ev (raw :: rest) buf inbt g = ps_loop ev rest buf inbt g.
+Proof. intros [H|(r & H)]; cbn [ps_loop]; rewrite H; reflexivity. Qed.
+
+(* a blank or comment line may be inserted anywhere, even inside a continuation *)
+Theorem ps_insert_skipped ev raw l1 : forall l2 buf inbt g, skipped_line raw ->
+  ps_loop ev (l1 ++ raw :: l2) buf inbt g = ps_loop ev (l1 ++ l2) buf inbt g.
+Proof.
+  induction l1 as [|x l1 IH]; intros l2 buf inbt g H.
+  - cbn [app]. now apply ps_skip.
+  - cbn [app ps_loop]. destruct (p_trim_space x) as [|c0 t]; [now apply IH|].
+    destruct (c0 =? cHASH); [now apply IH|].
+    destruct (if negb inbt && (p_last (c0 :: t) =? cBT) then true else if inbt && (c0 =? cBT) then false else inbt);
+      [now apply IH|].
+    destruct (p_last (c0 :: t) =? cBS); [now apply IH|].
+    destruct (ev g (buf ++ c0 :: t)); [now apply IH|reflexivity].
+Qed.
+
+(* only the trimmed content of a physical line matters: indentation and trailing blanks *)
+Theorem ps_trim_ext ev l1 : forall l2 buf inbt g, map p_trim_space l1 = map p_trim_space l2 ->
+  ps_loop ev l1 buf inbt g = ps_loop ev l2 buf inbt g.
+Proof.
+  induction l1 as [|x l1 IH]; intros l2 buf inbt g H; destruct l2 as [|y l2]; try discriminate; [reflexivity|].
+  cbn [map] in H. inversion H as [[Hxy Hr]]. cbn [ps_loop]. rewrite Hxy.
+  destruct (p_trim_space y) as [|c0 t]; [now apply IH|].
+  destruct (c0 =? cHASH); [now apply IH|].
+  destruct (if negb inbt && (p_last (c0 :: t) =? cBT) then true else if inbt && (c0 =? cBT) then false else inbt);
+    [now apply IH|].
+  destruct (p_last (c0 :: t) =? cBS); [now apply IH|].
+  destruct (ev g (buf ++ c0 :: t)); [now apply IH|reflexivity].
+Qed.
+
+Lemma p_trim_left_rev_pad pad s : is_pad pad = true -> p_trim_left_rev (pad ++ s) = p_trim_left_rev s.
+Proof.
+  induction pad as [|c pad IH]; intros H; [reflexivity|].
+  cbn [is_pad forallb] in H. apply andb_prop in H as [Hc Hp].
+  cbn [app p_trim_left_rev].
+  assert (Hs : p_is_ascii_space c = true).
+  { unfold p_is_ascii_space. apply orb_prop in Hc as [Hc|Hc]; unfold cSP, cTAB in Hc;
+      apply N.eqb_eq in Hc; subst c; reflexivity. }
+  rewrite Hs. apply IH. exact Hp.
+Qed.
+
+Lemma is_pad_rev pad : is_pad pad = true -> is_pad (rev pad) = true.
+Proof.
+  unfold is_pad. intros H. apply forallb_forall. intros x Hx. apply in_rev in Hx.
+  exact (proj1 (forallb_forall _ _) H x Hx).
+Qed.
+
+Lemma p_trim_right_pad s pad : is_pad pad = true -> p_trim_right (s ++ pad) = p_trim_right s.
+Proof.
+  intros H. unfold p_trim_right. rewrite rev_app_distr. now rewrite (p_trim_left_rev_pad _ _ (is_pad_rev _ H)).
+Qed.
+
+(* blanks and tabs around a line do not matter *)
+Lemma p_trim_space_indent pad1 pad2 s : is_pad pad1 = true -> is_pad pad2 = true -> s <> [] ->
+  nsp (hd 0 s) = true -> p_trim_space (pad1 ++ s ++ pad2) = p_trim_space s.
+Proof.
+  intros H1 H2 Hne Hh. unfold p_trim_space. rewrite (p_trim_left_pad _ _ H1).
+  destruct s as [|c r]; [congruence|]. cbn [hd] in Hh. cbn [app].
+  rewrite (p_trim_left_nsp c (r ++ pad2) Hh), (p_trim_left_nsp c r Hh).
+  change (c :: r ++ pad2) with ((c :: r) ++ pad2). now apply p_trim_right_pad.
+Qed.
+
+Lemma removelast_app_ne {A} (a b : list A) : b <> [] -> removelast (a ++ b) = a ++ removelast b.
+Proof. intros H. now apply removelast_app. Qed.
+
+(* a logical line may be broken by backslash-newline in front of any piece that survives
+   trimming (starts with a byte that is neither blank nor '#') *)
+Theorem ps_continuation ev raw1 raw2 raw a b rest buf g :
+  p_trim_space raw1 = a ++ [cBS] -> a <> [] -> (hd 0 a =? cHASH) = false ->
+  p_trim_space raw2 = b -> b <> [] -> (hd 0 b =? cHASH) = false ->
+  p_trim_space raw = a ++ b ->
+  ps_loop ev (raw1 :: raw2 :: rest) buf false g = ps_loop ev (raw :: rest) buf false g.
+Proof.
+  intros H1 Ha Hah H2 Hb Hbh H.
+  destruct a as [|a0 a']; [congruence|]. destruct b as [|b0 b']; [congruence|]. cbn [hd] in Hah, Hbh.
+  cbn [ps_loop]. rewrite H1, H2, H. cbn [app]. rewrite Hah.
+  change (a0 :: a' ++ [cBS]) with ((a0 :: a') ++ [cBS]). rewrite p_last_app.
+  change (cBS =? cBT) with false. change (cBS =? cBS) with true. cbn [andb negb]. cbn match.
+  rewrite removelast_last. rewrite Hbh.
+  assert (Hl : p_last (a0 :: a' ++ b0 :: b') = p_last (b0 :: b')).
+  { unfold p_last. change (a0 :: a' ++ b0 :: b') with ((a0 :: a') ++ b0 :: b'). apply last_app_ne. discriminate. }
+  rewrite Hl. cbn [andb negb].
+  destruct (p_last (b0 :: b') =? cBT).
+  - cbn match. rewrite <- !app_assoc. reflexivity.
+  - cbn match. destruct (p_last (b0 :: b') =? cBS).
+    + change (a0 :: a' ++ b0 :: b') with ((a0 :: a') ++ b0 :: b').
+      rewrite (removelast_app_ne (a0 :: a') (b0 :: b')) by discriminate. rewrite <- !app_assoc. reflexivity.
+    + change (a0 :: a' ++ b0 :: b') with ((a0 :: a') ++ b0 :: b'). rewrite <- !app_assoc. reflexivity.
+Qed.
+
+(* the letter case of the directive keyword does not matter: any text *)
+Theorem evaluate_line_keyword_case mask kw rest : no_byte cSP kw = true -> kw <> [] ->
+  (hd 0 kw =? cHASH) = false ->
+  evaluate_line (vary_case mask kw ++ cSP :: rest) = evaluate_line (kw ++ cSP :: rest).
+Proof.
+  intros Hsp Hne Hh.
+  assert (Hv : no_byte cSP (vary_case mask kw) = true).
+  { clear -Hsp. revert kw Hsp. induction mask as [|b m IH]; intros kw H; destruct kw as [|c k]; try exact H; try reflexivity.
+    rewrite no_byte_cons in H. apply andb_prop in H as [Hc Hk]. cbn [vary_case]. rewrite no_byte_cons, (IH k Hk), andb_true_r.
+    destruct b; [|exact Hc]. apply negb_true_iff in Hc. apply negb_true_iff. unfold flip_case.
+    apply N.eqb_neq in Hc. destruct ((65 <=? c) && (c <=? 90)) eqn:E1.
+    - apply andb_prop in E1 as [A B]. apply N.leb_le in A, B. apply N.eqb_neq. unfold cSP. lia.
+    - destruct ((97 <=? c) && (c <=? 122)) eqn:E2.
+      + apply andb_prop in E2 as [A B]. apply N.leb_le in A, B. apply N.eqb_neq. unfold cSP. lia.
+      + now apply N.eqb_neq. }
+  destruct kw as [|k0 k']; [congruence|]. cbn [hd] in Hh.
+  assert (Hv0 : exists v0 v', vary_case mask (k0 :: k') = v0 :: v' /\ (v0 =? cHASH) = false).
+  { destruct mask as [|b m]; [exists k0, k'; now split|]. cbn [vary_case]. eexists. eexists. split; [reflexivity|].
+    destruct b; [|exact Hh]. unfold flip_case. apply N.eqb_neq in Hh.
+    destruct ((65 <=? k0) && (k0 <=? 90)) eqn:E1.
+    - apply andb_prop in E1 as [A B]. apply N.leb_le in A, B. apply N.eqb_neq. unfold cHASH. lia.
+    - destruct ((97 <=? k0) && (k0 <=? 122)) eqn:E2.
+      + apply andb_prop in E2 as [A B]. apply N.leb_le in A, B. apply N.eqb_neq. unfold cHASH. lia.
+      + now apply N.eqb_neq. }
+  destruct Hv0 as (v0 & v' & Ev & Hv0).
+  unfold evaluate_line.
+  rewrite Ev in *. cbn [app]. rewrite Hv0, Hh.
+  change (v0 :: v' ++ cSP :: rest) with ((v0 :: v') ++ cSP :: rest).
+  change (k0 :: k' ++ cSP :: rest) with ((k0 :: k') ++ cSP :: rest).
+  rewrite (p_cut_app cSP _ rest Hv), (p_cut_app cSP _ rest Hsp).
+  rewrite <- Ev. now rewrite p_lower_vary.
+Qed.
+
+(* ------------------------------------------------------------------------------------ *)
+(* Part 9: a whole configuration text consisting of one rendered rule                   *)
+(* ------------------------------------------------------------------------------------ *)
+Lemma rev_nil_iff {A} (l : list A) : rev l = [] -> l = [].
+Proof. intros H. apply (f_equal (@rev A)) in H. now rewrite rev_involutive in H. Qed.
+
+Lemma split_lines_aux_nolf s : forall cur, no_byte cLF s = true ->
+  split_lines_aux s cur = match rev cur ++ s with [] => [] | _ => [p_drop_cr (rev cur ++ s)] end.
+Proof.
+  induction s as [|c r IH]; intros cur H.
+  - cbn [split_lines_aux]. rewrite app_nil_r. destruct cur as [|x cur]; [reflexivity|].
+    destruct (rev (x :: cur)) eqn:E; [apply rev_nil_iff in E; discriminate|reflexivity].
+  - rewrite no_byte_cons in H. apply andb_prop in H as [Hc Hr]. apply negb_true_iff in Hc.
+    cbn [split_lines_aux]. rewrite Hc. rewrite (IH (c :: cur) Hr). cbn [rev]. now rewrite <- !app_assoc.
+Qed.
+
+Lemma split_lines_aux_lf s rest : forall cur, no_byte cLF s = true ->
+  split_lines_aux (s ++ cLF :: rest) cur = p_drop_cr (rev cur ++ s) :: split_lines_aux rest [].
+Proof.
+  induction s as [|c r IH]; intros cur H.
+  - cbn [app split_lines_aux]. change (cLF =? cLF) with true. cbn match. now rewrite app_nil_r.
+  - rewrite no_byte_cons in H. apply andb_prop in H as [Hc Hr]. apply negb_true_iff in Hc.
+    cbn [app split_lines_aux]. rewrite Hc. rewrite (IH (c :: cur) Hr). cbn [rev]. now rewrite <- !app_assoc.
+Qed.
+
+Lemma p_drop_cr_id l : (p_last l =? cCR) = false -> p_drop_cr l = l.
+Proof.
+  intros H. unfold p_drop_cr. destruct (rev l) as [|c r] eqn:E; [reflexivity|].
+  assert (c = p_last l).
+  { apply (f_equal (@rev N)) in E. rewrite rev_involutive in E. rewrite E. cbn [rev]. now rewrite p_last_app. }
+  subst c. now rewrite H.
+Qed.
+
+Lemma parse_string_S f files g text :
+  parse_string (S f) files g text =
+  ps_loop (fun g l =>
+             match evaluate_line l with
+             | LError => None
+             | LRule d => Some (mk_g (g_inc g) (d :: g_rules g))
+             | LInclude path =>
+               if max_include <=? g_inc g then None
+               else match p_assoc (p_trim_space path) files with
+                    | None => None
+                    | Some content => parse_string f files (mk_g (g_inc g + 1) (g_rules g)) content
+                    end
+             end)
+          (scanner_lines (split_lines text)) [] false g.
+Proof. reflexivity. Qed.
+
+Theorem parse_config_line files l d :
+  l <> [] -> no_byte cLF l = true -> nsp (hd 0 l) = true -> (hd 0 l =? cHASH) = false ->
+  nsp (p_last l) = true -> (p_last l =? cBT) = false -> (p_last l =? cBS) = false ->
+  (N.of_nat (length l) <? max_line) = true -> evaluate_line l = LRule d ->
+  parse_config files l = Some [d] /\ parse_config files (l ++ [cLF]) = Some [d].
+Proof.
+  intros Hne Hlf Hh Hhash Hl Hbt Hbs Hlen Hev.
+  assert (Hcr : (p_last l =? cCR) = false).
+  { unfold nsp, p_is_ascii_space in Hl. apply andb_prop in Hl as [_ Hl]. apply negb_true_iff in Hl.
+    repeat (apply orb_false_elim in Hl as [Hl ?]). assumption. }
+  assert (Hloop : forall g, ps_loop (fun g l0 =>
+               match evaluate_line l0 with
+               | LError => None
+               | LRule d => Some (mk_g (g_inc g) (d :: g_rules g))
+               | LInclude path =>
+                 if max_include <=? g_inc g then None
+                 else match p_assoc (p_trim_space path) files with
+                      | None => None
+                      | Some content => parse_string 101 files (mk_g (g_inc g + 1) (g_rules g)) content
+                      end
+               end) [l] [] false g = Some (mk_g (g_inc g) (d :: g_rules g))).
+  { intros g. cbn [ps_loop]. rewrite (p_trim_space_id l 0 Hne Hh Hl).
+    destruct l as [|c0 t]; [congruence|]. cbn [hd] in Hhash. rewrite Hhash, Hbt, Hbs. cbn [negb andb app].
+    cbn match. rewrite Hev. reflexivity. }
+  split.
+  - unfold parse_config. change include_fuel with (S 101). rewrite parse_string_S.
+    unfold split_lines. rewrite (split_lines_aux_nolf l [] Hlf). cbn [rev app].
+    rewrite (match_nonempty l _ _ Hne). rewrite (p_drop_cr_id l Hcr). cbn [scanner_lines]. rewrite Hlen.
+    rewrite Hloop. reflexivity.
+  - unfold parse_config. change include_fuel with (S 101). rewrite parse_string_S.
+    unfold split_lines. rewrite (split_lines_aux_lf l [] [] Hlf). cbn [rev app split_lines_aux].
+    rewrite (p_drop_cr_id l Hcr). cbn [scanner_lines]. rewrite Hlen. rewrite Hloop. reflexivity.
+Qed.
+
+Lemma escape_dq_no_lf s : no_byte cLF (escape_dq s) = no_byte cLF s.
+Proof.
+  induction s as [|c s IH]; [reflexivity|]. cbn [escape_dq]. destruct (c =? cDQ) eqn:E.
+  - apply N.eqb_eq in E. subst c. rewrite !no_byte_cons, IH. reflexivity.
+  - now rewrite !no_byte_cons, IH.
+Qed.
+
+Lemma is_pad_no_lf pad : is_pad pad = true -> no_byte cLF pad = true.
+Proof.
+  intros H. unfold no_byte. apply forallb_forall. intros x Hx.
+  pose proof (proj1 (forallb_forall _ _) H x Hx) as Hc. cbn beta in Hc.
+  apply orb_prop in Hc as [Hc|Hc]; apply N.eqb_eq in Hc; subst x; reflexivity.
+Qed.
+
+Lemma render_action_no_lf v a : wf_action a = true -> wf_avar v a = true -> no_byte cLF (render_action v a) = true.
+Proof.
+  intros Ha Hv. destruct (wf_action_split a Ha) as (ty & Hn & _ & _ & Hls).
+  destruct (action_name_ok _ _ Hn) as [Hlow _].
+  assert (Hpad : is_pad (av_pad v) = true) by (unfold wf_avar in Hv; now apply andb_prop in Hv as [? _]).
+  pose proof (is_pad_no_lf _ Hpad) as Hp.
+  pose proof (letters_no cLF _ (vary_case_letters (av_mask v) _ (lower_letter _ Hlow)) eq_refl) as Hnm.
+  unfold render_action. rewrite !no_byte_app, Hp, Hnm. cbn [andb].
+  destruct (a_value a) as [|v0 val] eqn:EV; [reflexivity|].
+  unfold line_safe in Hls. rewrite no_byte_cons, no_byte_app, Hp. cbn [andb].
+  destruct (av_quote v); [|exact Hls]. rewrite no_byte_cons, no_byte_app, Hls. reflexivity.
+Qed.
+
+Lemma render_actions_no_lf al : forall vs, forallb wf_action al = true -> wf_avars vs al = true ->
+  no_byte cLF (render_actions vs al) = true.
+Proof.
+  induction al as [|a r IH]; intros vs Hwf Hvs; [reflexivity|].
+  cbn [forallb] in Hwf. apply andb_prop in Hwf as [Ha Hr].
+  cbn [wf_avars] in Hvs. apply andb_prop in Hvs as [Hva Hvr].
+  destruct r as [|a' r'].
+  - cbn [render_actions]. now apply render_action_no_lf.
+  - change (render_actions vs (a :: a' :: r')) with
+      (render_action (hd avar_plain vs) a ++ cCOMMA :: render_actions (tl vs) (a' :: r')).
+    rewrite no_byte_app, no_byte_cons, (render_action_no_lf _ a Ha Hva), (IH (tl vs) Hr Hvr). reflexivity.
+Qed.
+
+Lemma spaces_no_lf n : no_byte cLF (p_spaces n) = true.
+Proof. induction n as [|n IH]; [reflexivity|]. unfold p_spaces in *. cbn [repeat]. now rewrite no_byte_cons, IH. Qed.
+
+Lemma render_line_facts mask v d : wf_desc d = true -> wf_rvar v d = true ->
+  let l := render_line mask v d in
+  l <> [] /\ no_byte cLF l = true /\ nsp (hd 0 l) = true /\ (hd 0 l =? cHASH) = false /\ p_last l = cDQ.
+Proof.
+  intros Hwf Hv. pose proof Hwf as Hwf0. unfold wf_desc in Hwf.
+  apply andb_prop in Hwf as [Hwf _]. apply andb_prop in Hwf as [Hwf Hacts].
+  apply andb_prop in Hwf as [Hwf Hop]. apply andb_prop in Hwf as [_ Hts].
+  destruct (r_op d) as [o|] eqn:EO; [|discriminate].
+  pose proof (vary_case_letters mask _ kw_secrule_letters) as Hlet.
+  cbn zeta. unfold render_line, render_rule. rewrite EO.
+  set (kw := vary_case mask kw_secrule) in *.
+  assert (Hkw : exists k0 k', kw = k0 :: k' /\ letter_ k0 = true).
+  { destruct kw as [|k0 k'] eqn:E; [unfold kw in E; apply vary_case_nil in E; discriminate|].
+    exists k0, k'. split; [reflexivity|]. cbn [forallb] in Hlet. now apply andb_prop in Hlet as [? _]. }
+  destruct Hkw as (k0 & k' & Ekw & Hk0).
+  split; [rewrite Ekw; discriminate|]. split; [|split; [|split]].
+  - assert (H1 : no_byte cLF kw = true) by exact (letters_no cLF _ Hlet eq_refl).
+    assert (H2 : no_byte cLF (render_targets (rv_tquote v) (r_targets d)) = true)
+      by exact (render_targets_safe cLF _ (rv_tquote v) (or_intror eq_refl) Hts).
+    assert (Hob : no_byte cLF (op_body o) = true).
+    { unfold op_body. destruct (op_fn_plain o Hop) as (_ & _ & Hf). destruct (wf_op_facts o Hop) as (_ & _ & _ & _ & Hls).
+      rewrite no_byte_app, Hf. destruct (o_arg o); [reflexivity|]. unfold line_safe in Hls. now rewrite no_byte_cons, Hls. }
+    assert (H4 : no_byte cLF (render_op o) = true).
+    { rewrite (render_op_eq o Hop). rewrite no_byte_cons, no_byte_app, escape_dq_no_lf, Hob. reflexivity. }
+    assert (H5 : no_byte cLF (render_actions (rv_avars v) (r_actions d)) = true)
+      by (unfold wf_rvar in Hv; exact (render_actions_no_lf _ _ Hacts Hv)).
+    repeat (rewrite no_byte_app || rewrite no_byte_cons).
+    rewrite H1, H2, H4, H5, !spaces_no_lf. reflexivity.
+  - rewrite Ekw. cbn [app hd]. exact (proj2 (letter_plain k0 Hk0)).
+  - rewrite Ekw. cbn [app hd]. apply N.eqb_neq. intros E. subst k0. discriminate.
+  - match goal with |- p_last ?x = _ =>
+      replace x with ((kw ++ cSP :: render_targets (rv_tquote v) (r_targets d) ++ cSP :: p_spaces (rv_gap1 v) ++
+                       render_op o ++ cSP :: p_spaces (rv_gap2 v) ++ cDQ :: render_actions (rv_avars v) (r_actions d)) ++ [cDQ])
+    end.
+    + now rewrite p_last_app.
+    + repeat (rewrite <- ?app_assoc; cbn [app]). reflexivity.
+Qed.
+
+(* the full-text round trip: a configuration consisting of one rendered SecRule line compiles
+   to exactly the description it was rendered from *)
+Theorem parse_config_render mask v d : wf_desc d = true -> wf_rvar v d = true ->
+  (N.of_nat (length (render_line mask v d)) <? max_line) = true ->
+  parse_config [] (render_line mask v d) = Some [d] /\
+  parse_config [] (render_line mask v d ++ [cLF]) = Some [d].
+Proof.
+  intros Hwf Hv Hlen. destruct (render_line_facts mask v d Hwf Hv) as (Hne & Hlf & Hh & Hhash & Hlast).
+  apply parse_config_line; try assumption; try (rewrite Hlast; reflexivity).
+  now apply evaluate_line_render.
+Qed.
+
+(* ------------------------------------------------------------------------------------ *)
+(* Part 10: texts that are accepted although they cannot be represented (witnesses),    *)
+(*          and texts that are rejected                                                 *)
+(* ------------------------------------------------------------------------------------ *)
+Local Open Scope string_scope.
+
+(* F25: an unclosed single quote in an action list is accepted; the following action is
+   swallowed into the value *)
+Lemma unclosed_quote_witness :
+  pa_unclosed (str "d:1,msg:'abc,tag:x") 105 false = true /\
+  parse_actions (str "id:1,msg:'abc,tag:x")
+  = Some [mk_action (str "id") (str "1") 1; mk_action (str "msg") (str "'abc,tag:x") 1].
+Proof. split; vm_compute; reflexivity. Qed.
+
+(* F30: a slash inside a plain key switches the scanner to regex mode; the rest is dropped *)
+Lemma slash_in_plain_key_witness :
+  parse_variables (str "ARGS:a/b") = Some [mk_tcall false false (str "ARGS") (str "/a/")] /\
+  parse_variables (str "ARGS:'a/b'") = Some [mk_tcall false false (str "ARGS") (str "/ab/")].
+Proof. split; vm_compute; reflexivity. Qed.
+
+(* F36: a value ending in a backslash swallows the following action *)
+Lemma trailing_backslash_witness :
+  parse_actions (str "id:1,tag:x\,deny")
+  = Some [mk_action (str "id") (str "1") 1; mk_action (str "tag") (str "x\,deny") 1] /\
+  parse_actions (str "id:1,tag:'x\',deny")
+  = Some [mk_action (str "id") (str "1") 1; mk_action (str "tag") (str "'x\',deny") 1].
+Proof. split; vm_compute; reflexivity. Qed.
+
+(* new: a quoted plain key keeps its closing quote; in front of a pipe it is an error *)
+Lemma quoted_plain_key_witness :
+  parse_variables (str "ARGS:'abc'") = Some [mk_tcall false false (str "ARGS") (str "abc'")] /\
+  parse_variables (str "ARGS:'abc'|TX") = None.
+Proof. split; vm_compute; reflexivity. Qed.
+
+(* new: a regex key without its closing slash is accepted and loses its last byte *)
+Lemma unterminated_regex_key_witness :
+  parse_variables (str "ARGS:/abc") = Some [mk_tcall false false (str "ARGS") (str "/ab/")].
+Proof. vm_compute; reflexivity. Qed.
+
+(* new: a configuration whose last line ends in a continuation backslash loses that
+   directive without an error *)
+Lemma dangling_continuation_witness :
+  parse_config [] (str "SecRule ARGS ""@rx a"" ""id:1,deny"" \") = Some [] /\
+  exists d, parse_config [] (str "SecRule ARGS ""@rx a"" ""id:1,deny""") = Some [d].
+Proof. split; [vm_compute; reflexivity|]. eexists. vm_compute. reflexivity. Qed.
+
+Local Close Scope string_scope.
+
+(* rejected: an action list with an unknown action name anywhere *)
+Lemma pa_build_unknown raw : forall res didx k v,
+  In (k, v) raw -> lookup_action (p_lower (p_trim_space k)) = None -> pa_build raw res didx = None.
+Proof.
+  induction raw as [|[k' v'] r IH]; intros res didx k v Hin Hl; [destruct Hin|].
+  cbn [pa_build]. destruct Hin as [E|Hin].
+  - inversion E; subst. now rewrite Hl.
+  - destruct (lookup_action (p_lower (p_trim_space k'))) as [ty|]; [|reflexivity].
+    destruct (ty =? 2); [destruct didx|]; eapply IH; eauto.
+Qed.
+
+Theorem parse_actions_unknown_rejected s k v :
+  In (k, v) (pa_split s) -> lookup_action (p_lower (p_trim_space k)) = None -> parse_actions s = None.
+Proof. intros H1 H2. unfold parse_actions. eapply pa_build_unknown; eauto. Qed.
+
+(* rejected: an operator token whose closing quote is missing *)
+Theorem cut_quoted_unterminated_rejected body : no_byte cDQ body = true -> cut_quoted_string (cDQ :: body) = None.
+Proof.
+  intros H. unfold cut_quoted_string. change (cDQ =? cDQ) with true. cbn match.
+  now rewrite (cut_body_no_quote body false H).
+Qed.
+
+(* new: a physical line of 64 KiB or more ends the scan silently (bufio.Scanner's error is never
+   looked at): whatever follows it is not parsed, and no error is reported *)
+Theorem scanner_lines_truncates pre l post :
+  forallb (fun x => N.of_nat (length x) <? max_line) pre = true ->
+  (N.of_nat (length l) <? max_line) = false ->
+  scanner_lines (pre ++ l :: post) = pre.
+Proof.
+  induction pre as [|x pre IH]; intros Hp Hl.
+  - cbn [app scanner_lines]. now rewrite Hl.
+  - cbn [forallb] in Hp. apply andb_prop in Hp as [Hx Hp]. cbn [app scanner_lines]. rewrite Hx.
+    now rewrite (IH Hp Hl).
+Qed.
